@@ -12,1113 +12,2756 @@ Definition show_fres (r : fres) : string :=
   end.
 Definition check (rs : list rune) : string := digest (show_fres (format_res rs)).
 Definition full (rs : list rune) : string := show_fres (format_res rs).
-Eval vm_compute in ("<<<M1458>>>" ++ check (runes_of_ascii "// top
-options
-    // c0
-{ // c1
-LittleEndian // c2a
-  // c2b
-= // c3
-true // c4
-; // c5a
-  // c5b
-FixedStringPadFromLeft // c6a
-  // c6b
-= true // c8
-; FixedStringPadChar = // c11
-'0' // c12
-;
-    // c13
-}
-    // c14
-packet // c15a
-  // c15b
-Trade
-    // c16
-{ string clOrdID
-    // c19
-, char[]
-    // c21
-Px // c22
-, // c23
-u32 // c24a
-  // c24b
-x // c25
-, // c26a
-  // c26b
-} // c27
-packet // c28
-Reject
-    // c29
-{ // c30
-int32 Side2 // c32
-,
-    // c33
-repeat // c34
-char[ // c35a
-  // c35b
-3 ] // c37
-clOrdID // c38a
-  // c38b
-, i32 // c40
-tag7 // c41a
-  // c41b
-, // c42a
-  // c42b
-} // c43a
-  // c43b
-packet
-    // c44
-Leg
-    // c45
-{ } root
-    // c48
-packet Quote
-    // c50
-{
-    // c51
-string // c52
-Side2 , string
-    // c55
-lastPx
-    // c56
-,
-    // c57
-InSym58 { int16 OrderId // c61a
-  // c61b
-, // c62a
-  // c62b
-Reject // c63
-, // c64
-i8 Qty // c66
-,
-    // c67
-i64
-    // c68
-venue , f32 // c71
-Note , // c73
-} // c74
-, // c75a
-  // c75b
-char[]
-    // c76
-count // c77
-, zchar[ 9 ] // c81a
-  // c81b
-price
-    // c82
-, // c83
-u16 // c84a
-  // c84b
-Qty
-    // c85
-,
-    // c86
-match // c87a
-  // c87b
-Qty // c88
-as // c89
-Body
-    // c90
-{ // c91
-69 // c92a
-  // c92b
-: // c93
-Leg , 48 // c96a
-  // c96b
-: // c97
-Trade // c98a
-  // c98b
-,
-    // c99
-51
-    // c100
-: // c101
-Reject // c102a
-  // c102b
-, // c103
-} // c104
-, u16
-    // c106
-Acct // c107
-@calculatedFrom( // c108
-""CRC32"" // c109a
-  // c109b
-) , // c111a
-  // c111b
-} ")).
-Eval vm_compute in ("<<<M2002>>>" ++ check (runes_of_ascii "// top
-  	root 
-    // c0
-  packet
-// c1
-	  msg_type 
-
-// c2
-
-	{ 
-
-    // c3
-		i64  
-      // c4
-		options1  
-  // c5
-	, 
-// c6
-  @lengthOf(
-	// c7
-      f32a
-// c8
-	) 
-      // c9
-  repeat 
-    // c10
-	uint16 
-  // c11
-		Foo
-    // c12
-  ,
-    // c13
-
-	@calculatedFrom( 
-  // c14
-		""x y"" 
-
-// c15
-
-) 
-    // c16
-  	repeat 
-
-// c17
-int64
-        // c18
-  	pack
-
-    // c19
-
-	, 
-
-    // c20
-	@leftPad 
-    // c21
-(
-	    // c22
-    ' ' 
-    // c23
-    ) 
-    // c24
-		uint8
-    // c25
-	Foo
-// c26
-, 
-        // c27
-  }
-// c28
-	packet 
-      // c29
-	rootA  
-  // c30
-
-	{
-    // c31
-  f32a
-// c32
-
-x 
-
-// c33
-
-	`two words` 
-  // c34
-		, 
-      // c35
-  char 
-
-    // c36
-  asx
-    // c37
-    	@lengthOf( 
-
-    // c38
-      falsey 
-	// c39
-) 
-
-// c40
-	`u8 x,` 
-// c41
-  , 
-
-// c42
-    @lengthOf( 
-  // c43
-	i64_ 
-    // c44
-	)
-// c45
-
-  uint16
-// c46
-  	chars
-	    // c47
-  	,  
-      // c48
-  @tag(
-    // c49
-    0 
-        // c50
-
-  ) 
-	// c51
-    string
-
-    // c52
-	_x 
-        // c53
-@calculatedFrom( 
-
-// c54
-	""abc""  
-  // c55
-  )
-
-// c56
-`// not a comment` 
-
-// c57
-
-, 
-        // c58
-	}  
-      // c59
-")).
-Eval vm_compute in ("<<<M165>>>" ++ check (runes_of_ascii "packet uint8x { @lengthOf( Pad )
-    Foo ,} root packet Foo  {
-char[] i64_
-    @calculatedFrom( ""a	b"" ) `u8 x,`
-    // @lengthOf(
-    , zchar[
-    // trailing space 
-    3]
-    tag
-@lengthOf( tag ), @lengthOf(	falsey) options1
-//x
-/// triple
-@lengthOf(  repeatCount ) ,
-string
-matchKey `crlf
-line` ,} packet metadata { //	t
-uint32
-    i8i8 , }
-root packet
-Header {
-@lengthOf( _x ) @lengthOf(
-A )metadata
-    tag
-    // trailing space 
-    `
-` ,x_y_z `tab	here`
-    ,
-    Pad // " ++ [128512]%N ++ runes_of_ascii " emoji
-, @calculatedFrom(
-    """ ++ [128512]%N ++ runes_of_ascii """ )
-    //x
-    repeat string f32a`crlf
-line`, string packetx	@calculatedFrom( ""a\\""
-)
-    , }  packet
-    // packet A { u8 x, }
-    u8x { pack, @calculatedFrom( ""// no comment"" // `tick` ""quote"" 'q'
-)packetx, match options1// trailing space 
-as chars { ""1"" :
-Logon
-// a // b
-// a // b
-, 7 :
-trueish } ,
-match asx  as
-    /// triple
-    Logon {	[ 3 ]: _x , [
-    ""// no comment"" , 7 , """ ++ [233]%N ++ runes_of_ascii "t" ++ [233]%N ++ runes_of_ascii """  ,""it's""
-,1 ]
-    : i8i8 // " ++ [27880; 37322]%N ++ runes_of_ascii "
-[
-/// triple
-// " ++ [27880; 37322]%N ++ runes_of_ascii "
-""1"" ] : T , } , } // a // b")).
-Eval vm_compute in ("<<<M1427>>>" ++ check (runes_of_ascii "options {
-    LittleEndian = true;
-    StringPrefixLenType = u32;
-    FixedStringPadChar = '0';
-}
-packet Logout {
-    repeat InMsgkind49 {
-        u8 pad0,
-    },
-    repeat char[5] seqNo,
-    repeat u8 price,
-}
-packet Party {
-    zchar[7] Qty,
-}
-packet Logon {
-    repeat InRef10 {
-        string price,
-        char[] sym,
-        repeat Logout,
-    },
-    repeat char[3] count,
-    repeat Party,
-    char[] tag7,
-    @rightPad('0') char[2] clOrdID,
-}
-packet Order {
-    InTail13 {
-        Party,
-    },
-    repeat char[4] count,
-}
-root packet Cancel {
-    Logout,
-    @leftPad('0') char[9] msgKind,
-    string lastPx,
-    string tag7,
-    zchar[1] OrderId,
-    repeat Party,
-    u16 sym,
-    u16 Acct @lengthOf(Body),
-    match sym as Body {
-        [24, 44] : Logout,
-        160 : Order,
-        91 : Logon,
-        43 : Party,
-    },
-    u16 Tail @calculatedFrom(""CRC32""),
-}
-")).
-Eval vm_compute in ("<<<M5>>>" ++ check (runes_of_ascii "root packet // a // b
-chars{
-    u32
-u8x `it's`
-    , A o
-,
-Packet {u/// triple
-`doc` , repeat
-// @lengthOf(
-// " ++ [128512]%N ++ runes_of_ascii " emoji
-Header
-    u8x  ,
-i8i8
-As , } , @calculatedFrom(
-// `tick` ""quote"" 'q'
-// trailing space 
-""a\\"" ) charz
-    { //x
-char[]a1 , //
-string Pad , x repeatCount
-, metadata {
-chars{ body`a\`  , match
-    trueish as lengthOf
-    { 0:u8x
-    , } , match packetx as	string_  {0123456789
-:BodyLength , } , } ,
-repeat calculatedFrom
-    roots
-    ,
-repeat
-Packet
-    ,int32 Logon, }
-    ,// c
-}, repeatCount,
-    @lengthOf( float) match trueish as Header { [ ""{,}"" , ""1""
-]
-    : // " ++ [27880; 37322]%N ++ runes_of_ascii "
-f32a ,} ,	i16 chars
-    , match As  as Pad { 3: f32a , [ 4294967296
-    ] : body,[	""{,}""
-]
-: u8x // `tick` ""quote"" 'q'
-, ""a	b"" :
-    Z9_,
-    // packet A { u8 x, }
-    } ,// " ++ [27880; 37322]%N ++ runes_of_ascii "
-} //x")).
-Eval vm_compute in ("<<<M1179>>>" ++ check (runes_of_ascii "// top
-options // c0
-{
-    // c1
-chars // c2a
-  // c2b
-= ""a\\"" // c4a
-  // c4b
-} // c5a
-  // c5b
-packet
-    // c6
-Z9_ // c7a
-  // c7b
-{ // c8a
-  // c8b
-match // c9
-BodyLength
-    // c10
-as roots
-    // c12
-{ """ ++ [28040; 24687]%N ++ runes_of_ascii """ // c14a
-  // c14b
-: falsey
-    // c16
-,
-    // c17
-00
-    // c18
-: u128 // c20a
-  // c20b
-0
-    // c21
-:
-    // c22
-len , // c24a
-  // c24b
-007 // c25
-:
-    // c26
-f32a }
-    // c28
-, @tag(
-    // c30
-3 // c31
-) @calculatedFrom( // c33
-""`tick`""
-    // c34
-) @leftPad (
-    // c37
-' ' ) // c39
-string // c40
-asx // c41
-, // c42a
-  // c42b
-string // c43a
-  // c43b
-u @lengthOf( options1 ) // c47a
-  // c47b
-, float32 // c49a
-  // c49b
-i64_ @calculatedFrom( ""a\""b"" // c52a
-  // c52b
-) // c53
-, // c54
-} // c55
-")).
-Eval vm_compute in ("<<<M1404>>>" ++ check (runes_of_ascii "// top
-packet // c0
-MDSnapshotZZ { // c2a
-  // c2b
-u8 a
-    // c4
-, } // c6
-packet // c7a
-  // c7b
-OrderACK // c8a
-  // c8b
-{ u16 b
-    // c11
-, // c12a
-  // c12b
-} // c13
-packet
-    // c14
-HTTPServerInfo {
-    // c16
-string s
-    // c18
-, } root // c21a
-  // c21b
-packet // c22
-FIXMsg // c23
-{ // c24
-u8 // c25
-KType , MDSnapshotZZ , repeat // c30a
-  // c30b
-OrderACK
-    // c31
-, // c32a
-  // c32b
-match
-    // c33
-KType // c34a
-  // c34b
-as
-    // c35
-Body // c36
-{ 1 : // c39
-HTTPServerInfo // c40
-, // c41
-2 // c42
-: // c43
-OrderACK // c44a
-  // c44b
-, // c45
-} // c46a
-  // c46b
-, // c47a
-  // c47b
-} // c48a
-  // c48b
-")).
-Eval vm_compute in ("<<<M194>>>" ++ check (runes_of_ascii "// " ++ [128512]%N ++ runes_of_ascii " emoji
-packet// @lengthOf(
-int { match zchar
-as _x {	[ 4294967296 ]
-    :
-x_y_z ,[
-""a\""b"" // @lengthOf(
-]  :chars ,
-    [
-    ""it's"" , ""\" ++ [233]%N ++ runes_of_ascii """ , ""packet""
-    ,""{,}"" ] :
-f32a
-}, x { repeat asx{ zchar[  0123456789
-]crc `crlf
-line`, msg_type	i8i8`crlf
-line` ,
-    uint16
-rootA @calculatedFrom( ""a\\"" )
-    // @lengthOf(
-    , Logon x_y_z
-`" ++ [233]%N ++ runes_of_ascii "` , },
-} , } packet
-u{ match
-    pack as trueish //x
-{ ""1"" : len """ ++ [128512]%N ++ runes_of_ascii """ : leftPad ,4294967296 // @lengthOf(
-:	metadata
-, }
-    ,int T  `line1
-line2` ,f32 Logon
-    , } options {
-    }
-")).
-Eval vm_compute in ("<<<M1578>>>" ++ check (runes_of_ascii "root packet options1 {
-    @lengthOf(msg_type)
-    Logon @lengthOf(packetx) `
-    `,
-    As {
-        repeat T `
-        `,
-        float64 Foo `crlf
-        line`,
-        repeat repeatCount x_y_z `a\`,
-        int8 msg_type,
-    },// `tick` ""quote"" 'q'
-    msg_type @lengthOf(body),
-    u64 rootA @calculatedFrom(""" ++ [128512]%N ++ runes_of_ascii """),
-    @calculatedFrom(""packet"")
-    i32 Header,
-    uint32 BodyLength @lengthOf(trueish),
-    @lengthOf(f32a)
-    f32 Z9_ `{ , }`,
-}// a // b")).
-Eval vm_compute in ("<<<M220>>>" ++ check (runes_of_ascii "
-packet	float // a // b
-{ // c
-}
-packet u128 { @calculatedFrom(	""1"") asx x_y_z `" ++ [28040; 24687; 31867; 22411]%N ++ runes_of_ascii "` ,}
-    root packet
-    u8x { repeat uint8x	T
-, }
-packet leftPad
-    {
-i64_,@leftPad ( '0' )
-repeat	tag
-,repeat  uint8x  {	matchKey @calculatedFrom( ""abc""
-    ) , string charz ,
-    }// trailing space 
-,@rightPad
-( )zchar[ 10] charz
-    @calculatedFrom( """ ++ [128512]%N ++ runes_of_ascii """ )	`// not a comment` , // trailing space 
-}
-// @lengthOf(
-")).
-Eval vm_compute in ("<<<M235>>>" ++ check (runes_of_ascii "root //x
-packet
-rootA
-{ @leftPad ( '\x00'
-    ) @rightPad
-    (' ' )
-    // a // b
-    @tag(0 ) repeat zchar[ 3 ] matchKey
-    , // packet A { u8 x, }
-} packet u8x { } options
-    { packetx= '0'
-Pad = '\x00' Logon
-    =  false ;}
+Eval vm_compute in ("<<<M168>>>" ++ check (runes_of_ascii "  packet charz{
+    body{
 // " ++ [128512]%N ++ runes_of_ascii " emoji
 // c
-MetaData u8x {i32 rootA
-    , MetaDataX zchar`" ++ [233]%N ++ runes_of_ascii "` , // packet A { u8 x, }
-int64 Foo `// not a comment` ,
-}
-")).
-Eval vm_compute in ("<<<M219>>>" ++ check (runes_of_ascii "root packet x {string
-packetx
-    // @lengthOf(
-    `{ , }`, char stringy`// not a comment`
-, match charz as
-u128
-{ """ ++ [128512]%N ++ runes_of_ascii """
-: _x,0 : options1 // packet A { u8 x, }
+repeat float32 int
+`100% of %d`
+, // 50% %s
+u32 // " ++ [128512]%N ++ runes_of_ascii " emoji
+charz@lengthOf( rootA
+    )	, match len as stringy
+{
+[""" ++ [28040; 24687]%N ++ runes_of_ascii """ , 7 , 0123456789 , 0
+    ,
+0123456789 ] // @lengthOf(
+:// `tick` ""quote"" 'q'
+options1 , 255 : //	t
+MetaDataX,} , u8
+o
+`// not a comment` , }
+,// " ++ [27880; 37322]%N ++ runes_of_ascii "
+@tag(// c
 42
-    :trueish , [
-// @lengthOf(
-// `tick` ""quote"" 'q'
-""it's"" , 00
-, """ ++ [28040; 24687]%N ++ runes_of_ascii """  , ""\n""
-    // trailing space 
-    , 255 , 00 ]
-: lengthOf ,
-    1:len
-    , },}
-")).
-Eval vm_compute in ("<<<M1958>>>" ++ check (runes_of_ascii "options {
-    LittleEndian = true;
-    ArrayPrefixLenType = u64;
-    FixedStringPadFromLeft = false;
-}
-
-packet Quote {
-}
-
-root packet Order {
-    i64 Side2,
-    Quote,
-    u32 Px,
-    match Px as Body {
-        [119, 147] : Quote,
-    },
-    u16 Flags @calculatedFrom(""CR\
-    C32""),
-}")).
-Eval vm_compute in ("<<<M1336>>>" ++ check (runes_of_ascii "// top
-options // c0a
-  // c0b
-{ // c1a
-  // c1b
-LittleEndian
-    // c2
-= true // c4a
-  // c4b
-; // c5a
-  // c5b
-} // c6
-root // c7
-packet
-    // c8
-P // c9a
-  // c9b
+) // 50% %s
+@tag( 7
+// a // b
+//x
+)@lengthOf( crc )	char[] Header @lengthOf( crc )
+`100% of %d`
+    , zchar[ 255]
+body`crlf
+line`
+,//
+i8// c
+u128 `{ , }` , } packet string_
 {
-    // c10
-repeat char cs // c13
-, // c14a
-  // c14b
-u8 // c15
-x // c16
-, // c17
-} ")).
-Eval vm_compute in ("<<<M462>>>" ++ check (runes_of_ascii "options
-{
-matchKey = 42/// triple
-x='0' ;
-// packet A { u8 x, }
-//
-charz
-=
-// packet A { u8 x, }
+}packet
+    rootA {
+match A as rootA  {
+[""a\\""
 // trailing space 
-true  ; } MetaData BodyLength BodyLength
-{
-uint8
-pack,zchar[ 1]float ,  float32 x_y_z `` ,u32
-_x,i16 body  , }
-")).
-Eval vm_compute in ("<<<M559>>>" ++ check (runes_of_ascii "options
-{
-matchKey = 42/// triple
-x='0' ;
-// packet A { u8 x, }
-//
-charz
-=
-// packet A { u8 x, }
-// trailing space 
-true  ; } MetaData BodyLength
-{
-uint8
-pack,zchar[ 1]float ,  float32 x_y_z `` ,u32
-_x,i16 body  char[] }
-")).
-Eval vm_compute in ("<<<M507>>>" ++ check (runes_of_ascii "options
-{
-matchKey = 42/// triple
-x='0' ;
-// packet A { u8 x, }
-//
-charz
-=
-// packet A { u8 x, }
-// trailing space 
-true  ; } MetaData BodyLength
-{
-uint8
-pack,zchar[ 1]float , ,  float32 x_y_z `` ,u32
-_x,i16 body  , }
-")).
-Eval vm_compute in ("<<<M398>>>" ++ check (runes_of_ascii "options
-{
-= matchKey 42/// triple
-x='0' ;
-// packet A { u8 x, }
-//
-charz
-=
-// packet A { u8 x, }
-// trailing space 
-true  ; } MetaData BodyLength
-{
-uint8
-pack,zchar[ 1]float ,  float32 x_y_z `` ,u32
-_x,i16 body  , }
-")).
-Eval vm_compute in ("<<<M548>>>" ++ check (runes_of_ascii "options
-{
-matchKey = 42/// triple
-x='0' ;
-// packet A { u8 x, }
-//
-charz
-=
-// packet A { u8 x, }
-// trailing space 
-true  ; } MetaData BodyLength
-{
-uint8
-pack,zchar[ 1]float ,  float32 x_y_z `` ,u32
-_x,body i16  , }
-")).
-Eval vm_compute in ("<<<M1818>>>" ++ check (runes_of_ascii "options {
-    matchKey = 42/// triple
-    x = char[];
-    // packet A { u8 x, }
-    //
-    charz = true;
-}
-
-MetaData BodyLength {
-    uint8 pack,
-    zchar[1] float,
-    float32 x_y_z ``,
-    u32 _x,
-    i16 body,
-}")).
-Eval vm_compute in ("<<<M7>>>" ++ check (runes_of_ascii "MetaData trueish {	tag Foo `say ""hi""` , zchar[ 4294967296 ]
-    charz // packet A { u8 x, }
+// 50% %s
 ,
-/// triple
-// a // b
-Z9_ _x ,
-char[	0123456789 ] lengthOf
-    , i64 u8x `// not a comment` , f32a a1 `doc`,	}
-")).
-Eval vm_compute in ("<<<M86>>>" ++ check (runes_of_ascii "
-packet calculatedFrom { } MetaData charz
+0 ,
+    ""CRC32"" ,42 , ""abc""
+    , 65535 ,// " ++ [27880; 37322]%N ++ runes_of_ascii "
+""x y"" , 0123456789
+]
+: f32a, ""it's""
+    // c
+    : crc ""CRC32"" : msg_type  ,	""a\""b""
+: pack
+    ,
+    } , @rightPad( '\x00'
+    ) charz falsey
+`{ , }` , char[] len , @calculatedFrom(
+    ""// no comment"" )@calculatedFrom( """ ++ [233]%N ++ runes_of_ascii "t" ++ [233]%N ++ runes_of_ascii """ ) @lengthOf(  i64_
+) char[
+    007 ] _x `{ , }`
+    // 50% %s
+    ,
+packetx T ,
+    @lengthOf(stringy )repeat
+    // `tick` ""quote"" 'q'
+    float64	i8i8
+    ,
+    // trailing space 
+    char[] asx`doc`  ,  @lengthOf(  Header
+)@calculatedFrom( ""{,}"" )repeat options1 { float32 matchKey  ,}
+, }  root packet o
+{ string
+// `tick` ""quote"" 'q'
+//	t
+pack @calculatedFrom(
+""1"" ) , @calculatedFrom(
+""\n"" )match
+    u
+    // trailing space 
+    as options1{ [
+    ""CRC32""
+    , // " ++ [128512]%N ++ runes_of_ascii " emoji
+7 ,
+    0 ,
+    //x
+    ""\n"" , ""\" ++ [233]%N ++ runes_of_ascii """,""" ++ [233]%N ++ runes_of_ascii "t" ++ [233]%N ++ runes_of_ascii """ , 10	] :
+Logon
+    , 0  :
+    // packet A { u8 x, }
+    len , ["""" ] : // 50% %s
+uint8x [ 7, 0123456789 ,	3
+,007 , ""\n"" , 10
+    // " ++ [27880; 37322]%N ++ runes_of_ascii "
+    , 1 ] :
+Packet ""packet"" :
+Header ,  }
+    /// triple
+    , o	@calculatedFrom( ""a\\"" ), @calculatedFrom( ""1"" )
+    match zchar as roots {  [""x y""
+,""\n"" ,
+    """ ++ [233]%N ++ runes_of_ascii "t" ++ [233]%N ++ runes_of_ascii """ , // 50% %s
+00 , ""{,}"" ] : lengthOf } , @leftPad ( ) zchar[ 0123456789
+]
+    // a // b
+    leftPad`say ""hi""`,
+    // a // b
+    @calculatedFrom( ""abc"")
+match
+    //x
+    As
+    as _x{ ""{,}"": stringy ""\" ++ [233]%N ++ runes_of_ascii """	: Logon // @lengthOf(
+, [
+    00 ] : Pad ,""it's""	:
+i64_ , [ """" // trailing space 
+,
+""x y""
+]
+:Logon ,
+    // trailing space 
+    }, }
+    options {
+    //x
+    a1// c
+= ' ' ;
+//
+// @lengthOf(
+}")).
+Eval vm_compute in ("<<<M1311>>>" ++ check (runes_of_ascii "packet o
 {
-Z9_
+//	t
+// trailing space 
+match u128
+as A { ""x y"" :
+    len , ""a\""b""
+:
+i8i8 , [
+10
+,
+7 ,  0 ,00, """ ++ [128512]%N ++ runes_of_ascii """ ,  0123456789 //
+] : i8i8 ,
+    42 : lengthOf , 65535 : /// triple
+f32a ,
+    ""abc"" :
+Logon }
+, // packet A { u8 x, }
+@tag(
+    0123456789 )
+@tag( 3 )
+@leftPad (
+' ' ) zchar[
+007 ]
+    calculatedFrom
+    @lengthOf(	tag ) `doc` , @calculatedFrom( ""\n"") @calculatedFrom( """ ++ [28040; 24687]%N ++ runes_of_ascii """ )a1 Foo
+`u8 x,` , calculatedFrom { repeat // `tick` ""quote"" 'q'
+int{ uint8 tag @calculatedFrom( """ ++ [128512]%N ++ runes_of_ascii """
+    //	t
+    )
+// " ++ [27880; 37322]%N ++ runes_of_ascii "
+// trailing space 
+`u8 x,` ,	zchar[
     // @lengthOf(
-    Pad // a // b
-, uint64
-// packet A { u8 x, }
-// a // b
-u `" ++ [233]%N ++ runes_of_ascii "` , char[
-00]
-Z9_,	}// `tick` ""quote"" 'q'
-options {} 	 ")).
-Eval vm_compute in ("<<<M713>>>" ++ check (runes_of_ascii "// c
-packet i64_ {	char[] calculatedFrom , } packet
-trueish  { {@calculatedFrom(
-""a\\"" ) o { i32 falsey@lengthOf( uint8x ),
-} , } // `tick` ""quote"" 'q'
-options {// c
-Z9_ = ' '//
+    3
+]
+i8i8 @calculatedFrom( ""\" ++ [233]%N ++ runes_of_ascii """ ) `two words`
+, repeat //x
+f32a{
+match
+uint8x as uint8x { ""CRC32""  :metadata ,
+    //	t
+    """" : roots },
+    } ,} , }	, u8x pack
+,
+@tag(0123456789 ) repeat BodyLength {
+repeat x {  match roots	as Packet {""\n""// trailing space 
+:options1 , ""a\""b"": metadata ,/// triple
+[ ""\n"" , // 50% %s
+""" ++ [128512]%N ++ runes_of_ascii """ , ""a\\""  , 7	, ""a	b"" , ""x y"", 3, ""a\\"" ] :
+BodyLength ,
+// " ++ [128512]%N ++ runes_of_ascii " emoji
+// trailing space 
+} , repeat
+stringy , // @lengthOf(
+}, repeat string
+    metadata
+    , zchar[ 10 ] int @lengthOf(uint8x ) ,
+    rootA
+@lengthOf( crc )  `two words` ,} , @tag(
+    // c
+    7 ) // 50% %s
+@rightPad ( '\x00' ) @calculatedFrom( ""\n"" ) int8 Logon, repeat charz chars , u16 matchKey @calculatedFrom(  ""x y"") , } root packet _x{  @calculatedFrom(""x y"" ) float a1// trailing space 
+, u32  u128	@lengthOf( u128 ) // `tick` ""quote"" 'q'
+`doc`,
+    zchar[ 10	]
+    A // 50% %s
+`crlf
+line` // packet A { u8 x, }
+, repeat int64
+metadata
+    // packet A { u8 x, }
+    `line1
+line2`, zchar@calculatedFrom( ""a\""b"" )
+    /// triple
+    `" ++ [28040; 24687; 31867; 22411]%N ++ runes_of_ascii "` , @leftPad (
+) repeat Logon ,// 50% %s
 }
 ")).
-Eval vm_compute in ("<<<M162>>>" ++ check (runes_of_ascii "packet float {// a // b
-@lengthOf(
-    T ) repeat charz
-    {
+Eval vm_compute in ("<<<M1030>>>" ++ check (runes_of_ascii "MetaData msg_type	{ char[]
+    // trailing space 
+    Logon `say ""hi""`
+, } MetaData
+    a1 {a1 options1
+    ,
+    zchar[ 10 ] uint8x
+    `two words`
+, asx
+As
+    , char[65535 ] tag , uint8x f32a
+    `a\`
+, zchar[ 007 ]
+calculatedFrom, } MetaData lengthOf {char[]metadata , } root
+    packet chars{@tag( 7
+)f32a ,@rightPad ( )x {
+    char tag @calculatedFrom( ""`tick`"" )
+`crlf
+line` ,
+    char[]
+u8x
+    @calculatedFrom(
+    ""CRC32"" ) , repeat Pad Logon
+,}  , @calculatedFrom(
+    ""1"" ) // @lengthOf(
+_x _x ``
+,}
+    // trailing space 
+    packet tag { int64
+len	@calculatedFrom( ""a\\""
+) `line1
+line2`,@tag( 7 ) tag,@lengthOf( i64_ ) uint16 T ,f64 falsey	@lengthOf( o ) , @tag(
+//
+// @lengthOf(
+0
+    // packet A { u8 x, }
+    )	match o as
+    // `tick` ""quote"" 'q'
+    options1 { 007: Logon ,
+    [
+255
+    ,	1
+] : uint8x ,
+[
+    ""a\\"" ,
+""// no comment""
+] :
+//x
+// `tick` ""quote"" 'q'
+rootA, 255
+:	T ,[ """ ++ [233]%N ++ runes_of_ascii "t" ++ [233]%N ++ runes_of_ascii """]
+: f32a }
+    , @tag(
+4294967296 ) @tag(
+4294967296) @rightPad ( ) match asx as As
+{  65535 : repeatCount ,
+""`tick`"" :tag ,	""""
+    : // 50% %s
+matchKey
+    , // packet A { u8 x, }
+""packet"" : As 7:
+    metadata
+    """ ++ [128512]%N ++ runes_of_ascii """
+: Z9_ } , zchar {	char[] trueish ,u16 // c
+o  `doc` // `tick` ""quote"" 'q'
+, char[42 ]
+// 50% %s
+//x
+calculatedFrom // " ++ [27880; 37322]%N ++ runes_of_ascii "
+@lengthOf( metadata
+    ) ,
+    int16
     // c
-    packetx @calculatedFrom( """ ++ [28040; 24687]%N ++ runes_of_ascii """)
-    `" ++ [233]%N ++ runes_of_ascii "` // " ++ [27880; 37322]%N ++ runes_of_ascii "
-, char[
-4294967296 //x
-]Header	,  }
-    , } /// triple")).
-Eval vm_compute in ("<<<M1749>>>" ++ check (runes_of_ascii "MetaData falsey {
-    uint64 matchKey `// not a comment`,
-    char Pad,
-    int16 Pad `" ++ [28040; 24687; 31867; 22411]%N ++ runes_of_ascii "`,
-    zchar[00] x_y_z,
-    char[] i64_,
-    Logon repeatCount `tab	here`,
+    u8x
+, } , @leftPad  (
+// a // b
+// `tick` ""quote"" 'q'
+'\x00'
+) @leftPad	( ) repeat uint16  MetaDataX`it's`
+,
+//x
+// @lengthOf(
 }")).
-Eval vm_compute in ("<<<M1935>>>" ++ check (runes_of_ascii "
-MetaData
+Eval vm_compute in ("<<<M4451>>>" ++ check (runes_of_ascii "
+packet trueish
+{u16 trueish
+    ,@calculatedFrom( ""abc""	)
+f64
+MetaDataX	@calculatedFrom(
+    ""\" ++ [233]%N ++ runes_of_ascii """  //	t
+  )
+,
+	match
+len  // " ++ [27880; 37322]%N ++ runes_of_ascii "
+    	as
+
+    Logon{
+
+65535  :  string_
+, """ ++ [233]%N ++ runes_of_ascii "t" ++ [233]%N ++ runes_of_ascii """ 
+
+// 50% %s
+
+//	t
+    	:// `tick` ""quote"" 'q'
+u128,
+    [007 
+,0123456789
+    // a // b
+		//
+]	:string_  }
+	,	@lengthOf( string_  )int8 repeatCount , 
+@leftPad (  //
+
+  ) roots
+    x
+	    // a // b
+    	,
+string //	t
+
+	chars
+`crlf
+line`	,
+    u
+	u128
+	,
+@calculatedFrom(
+
+""`tick`""
+    )
+
+    u16  asx@lengthOf(  // trailing space 
+i8i8),
+string
+	//	t
+    // 50% %s
+  leftPad	`doc` 
+, f32 
+falsey
+,
+    }
+
+    options{ stringy =
+	""1"" 
+
+// trailing space 
+	;
+	float 
+=	// a // b
+    i64
+
+    ; 
+calculatedFrom=
+    ""it's"" // a // b
+;
+Z9_=	""// no comment""	// trailing space 
+    ; }
+packet Pad {  // @lengthOf(
+	leftPad repeatCount `a\`,	zchar[  0
+
+]
 
 chars
+    , 
+} 
+packet charz
+{	match
+
+As as Header  {
+42
+: As
+, } ,
+    @calculatedFrom(""\" ++ [233]%N ++ runes_of_ascii """	// 50% %s
+)
+
+    //x
+  // packet A { u8 x, }
+	@tag(
+
+42)@rightPad
+    (
+    '0'
+)
+    repeat
+Packet 
+x
+, body  asx
+    ,  //x
+	float64
+MetaDataX 
+	//	t
+    // c
+	  , body 
+
+    //x
+  stringy, match
+    Header  as
+uint8x
+	{""x y"" :
+i8i8
+255  
+  /// triple
+	:
+    trueish
+
+, """ ++ [28040; 24687]%N ++ runes_of_ascii """
+:
+	rootA
+	,
+    ""packet""	:
+
+    trueish 
+,
+	},
+
+} ")).
+Eval vm_compute in ("<<<M34>>>" ++ check (runes_of_ascii "packet leftPad{ @rightPad (
+    // `tick` ""quote"" 'q'
+    '0'
+)	MetaDataX
+    body , @calculatedFrom( ""a\\"" ) string float  `two words` , zchar[ 00
+//x
+// trailing space 
+]
+tag //
+@lengthOf(
+A )
+    `tab	here` // c
+,@tag( 42 ) @lengthOf( chars )  @leftPad('0'// `tick` ""quote"" 'q'
+) // 50% %s
+match Logon as int	{
+    255: Z9_
+    ,
+} // trailing space 
+, @leftPad
+( '\x00' ) repeat	trueish{  match  MetaDataX as msg_type { [ 0
+    //
+    ,
+""" ++ [28040; 24687]%N ++ runes_of_ascii """ ,
+    ""CRC32"" ] :
+    //	t
+    As , 0123456789 : BodyLength
+    65535 : falsey,  }
+,} //x
+, @calculatedFrom( ""a\\"" )@lengthOf( len ) repeat
+    stringy A , calculatedFrom@calculatedFrom( """ ++ [28040; 24687]%N ++ runes_of_ascii """) , }packet A { @rightPad ( '0' ) Logon ,}root packet f32a { @rightPad ( )Header `" ++ [233]%N ++ runes_of_ascii "` // @lengthOf(
+, } packet u { repeatCount{ i8i8 @lengthOf( msg_type  )	`u8 x,`, repeat Foo {
+// @lengthOf(
+// @lengthOf(
+repeat Z9_`
+`, },
+char[] roots ,
+    /// triple
+    } // " ++ [128512]%N ++ runes_of_ascii " emoji
+,
+@calculatedFrom( // " ++ [27880; 37322]%N ++ runes_of_ascii "
+""{,}""	)
+f32 // a // b
+u128`
+` ,
+falsey
+, @calculatedFrom( ""a\\"" )tag{ charz { rootA ,},} , @tag(//	t
+65535 ) @tag( 0123456789 ) // trailing space 
+@tag(
+    255 )char[]
+Z9_ `line1
+line2` , @rightPad ('\x00')
+char[] chars ,charz falsey , stringy , }")).
+Eval vm_compute in ("<<<M3841>>>" ++ check (runes_of_ascii "  root
+
+packet
+	tag	{
+float float 
+,
+char[] calculatedFrom
+	@calculatedFrom( ""packet"" )
+
+`say ""hi""`	,
+int8
+	pack	@lengthOf(  A ) 
+,
+
+@tag(
+
+    255  // 50% %s
+	) @calculatedFrom(""abc""
+
+    ) @lengthOf( repeatCount 
+) string  Logon `" ++ [233]%N ++ runes_of_ascii "`
+
+, uint16 
+u
+	@lengthOf(tag
+
+    ) // trailing space 
+
+`two words` ,
+	@tag( 4294967296 )  @calculatedFrom( ""x y"" )  @tag(	7
+
+    )zchar[
+00 ]
+
+    trueish ,repeat
+i8i8
+
+    {i64
+
+    a1
+
+`{ , }` ,}
+
+    , }// c
+  packet tag  {//	t
+    repeat repeatCount{
+    // 50% %s
+i8i8 
+@calculatedFrom(
+""// no comment""  )
+
+`" ++ [28040; 24687; 31867; 22411]%N ++ runes_of_ascii "`//x
+  , char[]	matchKey
+@calculatedFrom( """ ++ [233]%N ++ runes_of_ascii "t" ++ [233]%N ++ runes_of_ascii """ 
+
+// c
+	//
+)  // @lengthOf(
+  	`line1
+line2`
+    ,
+    }
+
+,
+repeat
+    zchar[42
+	]	body	, @calculatedFrom(""" ++ [233]%N ++ runes_of_ascii "t" ++ [233]%N ++ runes_of_ascii """ )	@calculatedFrom(	//x
+    ""\n"" ) @leftPad
+
+    (	'0'  )
+match
+tag
+    as
+len	{
+
+""CRC32""
+:	_x	[  """"// c
+	]
+
+:
+    matchKey
+
+    , } ,
+	@lengthOf(  i8i8 )
+zchar[ 00
+
+] pack
+@calculatedFrom(""1"" ) ,
+
+pack{
+stringy `doc`
+,  // `tick` ""quote"" 'q'
+    match
+f32a	//x
+  	as calculatedFrom  { [	// " ++ [27880; 37322]%N ++ runes_of_ascii "
+    	""a	b""
+,00 
+,
+007
+,
+
+""a	b""
+] 
+:u8x
+
+    }  /// triple
+	,}
+
+,
+	}// a // b")).
+Eval vm_compute in ("<<<M741>>>" ++ check (runes_of_ascii "
+options { /// triple
+repeatCount =
+    '\x00'  u128= ' '; A  =
+    00 int	='0' stringy=3 ; } options	{
+float
+=false  ;options1 =""`tick`""  ;
+    rootA
+    =
+    ' '
+    ; T='0' ;}packet charz{ @lengthOf( int )repeat i16
+uint8x `say ""hi""`
+,
+repeat zchar[ 255
+]Z9_ ,  metadata
+,@tag( 007 // `tick` ""quote"" 'q'
+)// c
+Packet{ char[ 1 //x
+]
+x , // " ++ [27880; 37322]%N ++ runes_of_ascii "
+match asx as
+x//x
+{ 00: len
+[ """"// packet A { u8 x, }
+,
+    ""a\\"" ] : crc, 10
+    :
+    matchKey 10 : leftPad } , match//x
+stringy
+as A{ ""1""
+: i64_ , 7// c
+:  As,
+""{,}""
+    : i8i8,
+}
+    ,	zchar[007  ]
+matchKey , } // packet A { u8 x, }
+, repeat zchar[  7 ] trueish ,@tag( 42 )  u8
+// `tick` ""quote"" 'q'
+// `tick` ""quote"" 'q'
+metadata @lengthOf(Packet  )
+// trailing space 
+// `tick` ""quote"" 'q'
+, @calculatedFrom(
+// `tick` ""quote"" 'q'
+// " ++ [128512]%N ++ runes_of_ascii " emoji
+""a	b"")
+i8 i64_ `line1
+line2` , repeat	A  { chars {char[	1  ]stringy @calculatedFrom( ""1"" ) , }
+, repeat char[]
+Z9_  , repeat
+    u128`" ++ [28040; 24687; 31867; 22411]%N ++ runes_of_ascii "` , chars @lengthOf(
+asx // " ++ [128512]%N ++ runes_of_ascii " emoji
+) ,
+} , } packet Foo
 {
-char[] Header
+} MetaData
+asx  { char[] Header `doc` ,} 	 ")).
+Eval vm_compute in ("<<<M4173>>>" ++ check (runes_of_ascii "
+options {LittleEndian  =
 
-`say ""hi""` 
+false
+
+;
+
+    StringPrefixLenType= 
+u16	;
+    ArrayPrefixLenType =
+
+u16;FixedStringPadFromLeft	=
+
+    false
+    ; 
+FixedStringPadChar  = ' ' ;
+	} packet
+Heartbeat
+
+    { i32  f1
 ,
+	}packet 
+Cancel 
+{char[]Note
 
-char[] matchKey
-    ,	char[ 1 
-] u8x , zchar
-A
+, }
+packet Fill
+{
+u32
+	price ,  float64	Ref, zchar[ 8
 
-,
-x  falsey  ,	zchar[42]
+] tag7,
+	repeat
 
-    calculatedFrom
+    Cancel ,
+
+    int64
+Acct
+,}  packet
+Quote { @rightPad(
+    '0'
+
+)  char[
+12 ]count	,
+    char[]
+
+seqNo	,
+}
+
+root 
+packet Party{
+
+    Fill, InMsgkind30	{ repeat
+    u16	Ref,
+	repeat
+	InCount61
+{repeat
+    i8
+sym
 
 , 
-} ")).
-Eval vm_compute in ("<<<M1590>>>" ++ check (runes_of_ascii "
-packet
-i8i8 //x
-	{ 
-int16 // trailing space 
+char[]  Ref , repeat
 
-  stringy	// " ++ [128512]%N ++ runes_of_ascii " emoji
-    @calculatedFrom( 
-""// no comment""
-	) ,
-} 
-packet
-_x
-    {
+char[ 4	]
 
-    }
-")).
-Eval vm_compute in ("<<<M1304>>>" ++ check (runes_of_ascii "// top
-MetaData // c0
-_x // c1
-{ // c2
-zchar[ // c3
-4294967296 // c4
-] // c5
-lengthOf // c6
-`// not a comment` // c7
-, // c8
-} // c9
-")).
-Eval vm_compute in ("<<<M622>>>" ++ check (runes_of_ascii "MetaData
-    // trailing space 
-    matchKey
-{ u64 chars // a // b
-,char[] lengthOf lengthOf `// not a comment`
-    , //	t
-}")).
-Eval vm_compute in ("<<<M1679>>>" ++ check (runes_of_ascii "packet
-	calculatedFrom{@tag(
+    Qty
 
-    4294967296 )u
-msg_type
-, 	 // c
-    char[
+,	repeat Heartbeat ,
 
-3  ] crc
-@lengthOf(len	)
-`u8 x,` , 
-}
-")).
-Eval vm_compute in ("<<<M655>>>" ++ check (runes_of_ascii "MetaData
-    // trailing space 
-    matchKey
-{ u64 chars // a // b
-,char[] lengthOf `?// not a comment`
-    , //	t
-}")).
-Eval vm_compute in ("<<<M611>>>" ++ check (runes_of_ascii "MetaData
-    // trailing space 
-    matchKey
-{ u64 chars // a // b
-char[] lengthOf `// not a comment`
-    , //	t
-}")).
-Eval vm_compute in ("<<<M1408>>>" ++ check (runes_of_ascii "
+    } , u32
+	venue
+    , uint16	Flags, },	u8
+	Px  , repeat
 
-  packet FooBar 
-{u8
-a,  }  packet
+    u16 Side2
+	,@rightPad(
 
-    foo_bar 
-{u16	b ,
-    }
-root packet
-    R
-    {FooBar ,foo_bar
-,
-} ")).
-Eval vm_compute in ("<<<M2013>>>" ++ check (runes_of_ascii "
-packet
-	A
+'0' )
 
-    {
-match
-k
+char[
+	10
+]
+	Qty
+	, @rightPad	('\x00' )
 
-    as
-n{
-    [ ""a""
-, 22
-,
+char[
+    1
+    ] clOrdID
 
-    ""c c"" 
-]:
-B 
-,
+    ,  u8 
+Tail	,
+	match
 
-2 :	C
-    }
+Tail
+	as Body{  [ 159 , 182	] :
+Quote , 155
+:Heartbeat ,  178
+:
+
+    Fill
+
+,  49 
+:
+    Cancel
 
     ,
-	}
-")).
-Eval vm_compute in ("<<<M1290>>>" ++ check (runes_of_ascii "packet calculatedFrom { @tag( 4294967296 ) u msg_type , char[ 3 ] crc @lengthOf( len ) `u8 x,` , }
-// c
-")).
-Eval vm_compute in ("<<<M1275>>>" ++ check (runes_of_ascii "packet calculatedFrom { @tag( 4294967296 ) u msg_type , char[ 3 ] // c
-crc @lengthOf( len ) `u8 x,` , }")).
-Eval vm_compute in ("<<<M895>>>" ++ check (runes_of_ascii "packet A {
-  match k as n {
-    [1, ""bb"", 007, ""d"", 5, ""f"", 7, ""h"", 9, ""j"", 11] : B
-    2 : C
-  },
-}")).
-Eval vm_compute in ("<<<M1172>>>" ++ check (runes_of_ascii "packet Logon { @tag( 42 ) @rightPad ( ' ' ) @leftPad ( ) repeat trueish { string T , } , } // c
-")).
-Eval vm_compute in ("<<<M1153>>>" ++ check (runes_of_ascii "packet Logon { @tag( 42 ) @rightPad ( ' ' ) @leftPad (
-// c
-) repeat trueish { string T , } , }")).
-Eval vm_compute in ("<<<M886>>>" ++ check (runes_of_ascii "packet A {
-  match k as n {
-    [1, 22, ""c c"", 4, 5, ""f"", 7, 8, ""i"", 10] : B
-    2 : C
-  },
-}")).
-Eval vm_compute in ("<<<M1501>>>" ++ check (runes_of_ascii "  packet 
-A
-{match
-k
-    as
+}
+	,u16
 
-    n
-
-    {
-1
-	: 
-B// a
-// b
-    2
-:  C }
-    , 
+    Ref @calculatedFrom(  ""CRC32"" 
+), 
 }
 
 ")).
-Eval vm_compute in ("<<<M968>>>" ++ check (runes_of_ascii "packet A {
-    u32 crc @calculatedFrom(""x\
-y""),
-    @calculatedFrom(""x\
-y"") u8 y,
+Eval vm_compute in ("<<<M23>>>" ++ check (runes_of_ascii "
+MetaData Z9_ {
+    // packet A { u8 x, }
+    char chars// " ++ [128512]%N ++ runes_of_ascii " emoji
+`100% of %d`
+,
+} packet
+As { zchar[ 255 ]  int , Pad { match pack as BodyLength{10: f32a,
+    // @lengthOf(
+    [
+    0 ,
+    00
+,1
+    , ""a	b"" ,
+    ""// no comment"" ] : charz
+,	} , T
+    ,
+repeat
+    _x { match
+matchKey as string_ {  [ ""it's"" ,0123456789 ] : body [ 00] :
+charz 00
+: Z9_ , } , char[ 007 ]
+    lengthOf
+/// triple
+// @lengthOf(
+`line1
+line2`
+    , }
+    ,
+    }, @leftPad ( ) repeat// a // b
+string lengthOf ,int16
+BodyLength`crlf
+line` ,  @tag( //x
+255
+    // c
+    )@tag(10 )
+    match	calculatedFrom as chars	{""" ++ [233]%N ++ runes_of_ascii "t" ++ [233]%N ++ runes_of_ascii """ : Header 4294967296
+: _x// a // b
+[ 0123456789 , """", ""1""
+    //
+    ] :leftPad// packet A { u8 x, }
+, 007 :u
+    //	t
+    , }
+, //	t
+uint8 Logon @lengthOf( msg_type),match roots as len { [3
+    ,
+    7
+, ""`tick`"" ]
+    : pack ,} , //	t
+@leftPad (	' ' )// @lengthOf(
+u8 a1
+, repeat f64 u ,uint8 u8x `a\` , }
+//x
+")).
+Eval vm_compute in ("<<<M3956>>>" ++ check (runes_of_ascii "
+packet// 50% %s
+int
+    {
+// " ++ [27880; 37322]%N ++ runes_of_ascii "
+u16
+    trueish // `tick` ""quote"" 'q'
+    , 
+zchar[  1 ] 
+zchar @lengthOf(
+
+chars), repeat	zchar[ 
+10
+    // c
+	// " ++ [128512]%N ++ runes_of_ascii " emoji
+
+	] msg_type `line1
+line2` ,
+
+@calculatedFrom(
+	""a\\""	) @rightPad // trailing space 
+  (	//	t
+
+' '	)string Z9_	`it's` 
+// a // b
+    // 50% %s
+
+,
+
+    repeat 	 // packet A { u8 x, }
+  rootA {  // c
+  zchar[
+00
+	]
+	MetaDataX , } 
+,
+@calculatedFrom(
+""" ++ [233]%N ++ runes_of_ascii "t" ++ [233]%N ++ runes_of_ascii """)
+
+match
+
+    string_  // trailing space 
+	as
+
+    leftPad
+{
+    ""a	b""
+    : Z9_	,
+	[ ""`tick`"" ,
+65535 ]  // " ++ [27880; 37322]%N ++ runes_of_ascii "
+	:
+    a1
+}
+    , 
+@tag( 007
+    )
+	    // " ++ [128512]%N ++ runes_of_ascii " emoji
+      // @lengthOf(
+u16
+metadata 
+
+    //
+,  @lengthOf(
+
+body	) char[ 
+7
+
+] Pad
+
+`// not a comment`  ,
+@calculatedFrom( ""a\\""
+	) pack
+
+_x
+,
+
+    lengthOf
+	T ,
+    }packet
+	BodyLength	{ 
+int32
+A
+,
+}
+	packet
+o
+
+    { float64
+roots
+,uint8x@lengthOf(
+    Logon
+
+    )`two words` ,
+
+    }
+")).
+Eval vm_compute in ("<<<M3357>>>" ++ check (runes_of_ascii "// top
+packet
+    // c0
+stringy
+    // c1
+{
+    // c2
+BodyLength
+    // c3
+`crlf
+line`
+    // c4
+,
+    // c5
+@calculatedFrom(
+    // c6
+""`tick`""
+    // c7
+)
+    // c8
+zchar[
+    // c9
+007
+    // c10
+]
+    // c11
+Header
+    // c12
+,
+    // c13
+@lengthOf(
+    // c14
+body
+    // c15
+)
+    // c16
+zchar[
+    // c17
+42
+    // c18
+]
+    // c19
+pack
+    // c20
+,
+    // c21
+}
+    // c22
+packet
+    // c23
+Z9_
+    // c24
+{
+    // c25
+@lengthOf(
+    // c26
+i64_
+    // c27
+)
+    // c28
+char[
+    // c29
+255
+    // c30
+]
+    // c31
+u
+    // c32
+`u8 x,`
+    // c33
+,
+    // c34
+@lengthOf(
+    // c35
+MetaDataX
+    // c36
+)
+    // c37
+@calculatedFrom(
+    // c38
+""\n""
+    // c39
+)
+    // c40
+float32
+    // c41
+Z9_
+    // c42
+,
+    // c43
+}
+    // c44
+options
+    // c45
+{
+    // c46
+_x
+    // c47
+=
+    // c48
+""it's""
+    // c49
+;
+    // c50
+}
+    // c51
+")).
+Eval vm_compute in ("<<<M514>>>" ++ check (runes_of_ascii "
+MetaData	Logon
+    {  } root
+    packet
+tag {	uint64
+options1`100% of %d` ,}//
+options
+    // `tick` ""quote"" 'q'
+    {f32a =
+    char[] ; A	= ' ' ;
+x= ""packet"" ; lengthOf = false
+    } packet
+    a1 {
+f32
+_x @calculatedFrom( ""1""
+) `crlf
+line`
+, int64
+matchKey
+    `it's`
+, @calculatedFrom(""1""
+    ) roots i8i8
+, @leftPad ( )
+match zchar as crc
+// packet A { u8 x, }
+//x
+{""abc""
+    :Packet ,""it's"" :
+Pad 7 :
+    // trailing space 
+    Foo , [ """ ++ [128512]%N ++ runes_of_ascii """  ,
+    42  ,
+    ""CRC32""
+    ,""CRC32"" ,
+// c
+// " ++ [128512]%N ++ runes_of_ascii " emoji
+""x y"" ,
+0 , """ ++ [233]%N ++ runes_of_ascii "t" ++ [233]%N ++ runes_of_ascii """ ]: Foo// packet A { u8 x, }
+, } ,
+uint64
+rootA`100% of %d` ,
+metadata o `doc`,
+    // 50% %s
+    string chars ,
+//x
+// `tick` ""quote"" 'q'
+@tag( // 50% %s
+0123456789
+)  uint8 Packet
+@calculatedFrom( ""x y"") `` , uint8 pack
+`" ++ [28040; 24687; 31867; 22411]%N ++ runes_of_ascii "`
+// packet A { u8 x, }
+// `tick` ""quote"" 'q'
+, }")).
+Eval vm_compute in ("<<<M4007>>>" ++ check (runes_of_ascii "
+
+  MetaData
+calculatedFrom//	t
+	  {
+    i64
+
+packetx	`
+`
+
+, 
+} packet
+	f32a {
+zchar 
+{ match
+MetaDataX  as
+
+As
+    { 42
+    :
+len 
+      // `tick` ""quote"" 'q'
+
+,
+
+    """ ++ [28040; 24687]%N ++ runes_of_ascii """ :  zchar
+,  [
+	""{,}""
+
+, """ ++ [233]%N ++ runes_of_ascii "t" ++ [233]%N ++ runes_of_ascii """
+, 007
+,
+
+7 
+    // packet A { u8 x, }
+]
+	: x
+,
+} , 
+repeat zchar[
+
+    0 // " ++ [27880; 37322]%N ++ runes_of_ascii "
+    ]
+zchar ,string_
+`
+`
+    ,
+char[]string_
+,} , @leftPad ( )u64 _x 
+,
+    @lengthOf(u128 
+)  @calculatedFrom(  ""packet"") 
+@leftPad
+    (
+
+    ' ' )
+
+repeat
+int , 
+@calculatedFrom(
+    ""packet""  ) msg_type 	 /// triple
+  ,
+
+int32
+	leftPad`100% of %d`  ,@lengthOf(calculatedFrom)zchar 
+@calculatedFrom(	""\n""
+
+    )
+
+    , string  chars
+
+@lengthOf(  matchKey)
+
+    `doc` ,//	t
+  } MetaData body
+{
+	char matchKey	`a\`
+
+    ,
+	char[]
+    falsey
+	, char[42
+	]
+
+float ,
+	}")).
+Eval vm_compute in ("<<<M3560>>>" ++ check (runes_of_ascii "// top
+options // c0a
+  // c0b
+{
+    // c1
+LittleEndian = // c3a
+  // c3b
+false // c4
+;
+    // c5
+StringPrefixLenType
+    // c6
+= u32 ; ArrayPrefixLenType = // c11a
+  // c11b
+u64 // c12a
+  // c12b
+; // c13a
+  // c13b
+FixedStringPadFromLeft // c14a
+  // c14b
+=
+    // c15
+false ;
+    // c17
+FixedStringPadChar // c18
+= // c19a
+  // c19b
+'0'
+    // c20
+; // c21
+} // c22a
+  // c22b
+packet Fill // c24a
+  // c24b
+{ // c25a
+  // c25b
+zchar[ // c26a
+  // c26b
+6 // c27a
+  // c27b
+] // c28
+price // c29
+, // c30
+} // c31
+root // c32a
+  // c32b
+packet // c33
+Quote // c34a
+  // c34b
+{ // c35
+Fill // c36
+, // c37
+float32 // c38a
+  // c38b
+count ,
+    // c40
+repeat
+    // c41
+f64 // c42
+OrderId
+    // c43
+, // c44a
+  // c44b
+} // c45
+")).
+Eval vm_compute in ("<<<M175>>>" ++ check (runes_of_ascii "MetaData
+// 50% %s
+//	t
+tag
+{
+    } root packet int
+    // packet A { u8 x, }
+    {@calculatedFrom(""`tick`"")repeat string len
+    // c
+    `a\`, @calculatedFrom(
+    ""{,}"") char[ 0
+] body@lengthOf(MetaDataX) ,u32
+    matchKey @calculatedFrom( ""x y"" )  `say ""hi""`
+    ,repeat f32
+leftPad //x
+,
+@rightPad ( ) match crc as A { [
+""x y""
+, 4294967296  ,	42 , """ ++ [233]%N ++ runes_of_ascii "t" ++ [233]%N ++ runes_of_ascii """, 10 ] : a1 007 : x_y_z ,
+    7	: repeatCount , ""abc"" :x ,/// triple
+""""
+:	Logon
+[""\n"" , 0123456789]
+    :roots// c
+, },
+match lengthOf as zchar{10 : u8x	,
+    42: a1
+    [
+    ""packet"" ] : T , [ 3
+//	t
+//
+,007
+, 65535 , 255, ""a\""b"" , 10 , ""// no comment""] : metadata// packet A { u8 x, }
+255 :i64_ ,
+}	, float
+    metadata , }
+")).
+Eval vm_compute in ("<<<M4298>>>" ++ check (runes_of_ascii "
+packet
+	u128 {
+
+    @tag(	// a // b
+
+10 )
+char[ 
+0123456789]
+    A
+``
+
+, 
+	// c
+  	//
+    	char[ 1
+] matchKey
+    `say ""hi""` 
+, 
+	    // `tick` ""quote"" 'q'
+T{
+u128
+leftPad ,
+}, 
+@calculatedFrom(
+
+""`tick`"" )
+    match
+
+    Logon as
+
+    msg_type{ 	 // c
+""it's"" :int
+
+,
+	""" ++ [128512]%N ++ runes_of_ascii """ 
+    // c
+: charz  ""a\\""
+:
+options1 ,
+
+},}MetaData
+    f32a  {	i64 
+pack ,
+    uint8  /// triple
+  int 
+,
+	tag
+
+packetx
+
+`// not a comment`	, char[ 7  ] charz
+	, // c
+
+	a1
+As , u32
+As 	 // " ++ [27880; 37322]%N ++ runes_of_ascii "
+      ,  }
+
+    options { 
+_x
+	=	1	;  }  packet 
+uint8x {	// trailing space 
+      @calculatedFrom(
+    """" 
+)
+	u8x lengthOf 
+    // @lengthOf(
+  // trailing space 
+	`say ""hi""`
+	, } ")).
+Eval vm_compute in ("<<<M1066>>>" ++ check (runes_of_ascii "MetaData options1 { a1 string_ ,
+char[] BodyLength `say ""hi""`
+,
+    string msg_type , string_ pack ,} packet options1
+    // `tick` ""quote"" 'q'
+    { match	MetaDataX	as
+leftPad {	""a	b"" :
+x_y_z ,[ ""a\""b""
+,""a	b"" ]
+: matchKey , [ ""1""
+    ]
+: _x// packet A { u8 x, }
+,
+[ ""x y""] :
+//	t
+// @lengthOf(
+pack ,255	: leftPad , ""packet"" :
+    Header	, }
+, @lengthOf(// `tick` ""quote"" 'q'
+body	)
+uint16 packetx `line1
+line2`// packet A { u8 x, }
+,i64 Logon
+,int64	A @lengthOf( metadata) ,@rightPad
+( ) leftPad// `tick` ""quote"" 'q'
+`" ++ [233]%N ++ runes_of_ascii "` ,
+    tag
+//
+/// triple
+,} packet len { repeat int64 string_ , @lengthOf( x )
+    repeat int16 float , } 	 ")).
+Eval vm_compute in ("<<<M3642>>>" ++ check (runes_of_ascii "
+options {T	=
+	char[]  //x
+  ; } root packet
+repeatCount{  @lengthOf(BodyLength  )repeat 
+char[
+3
+]
+Pad 
+`u8 x,`, zchar[ 42
+]
+u	@lengthOf( 
+float ) `doc`
+
+, 
+f32	metadata
+    `" ++ [28040; 24687; 31867; 22411]%N ++ runes_of_ascii "`  ,
+    repeat
+
+uint64
+
+    matchKey ,match i64_
+
+as  calculatedFrom {
+
+""`tick`"" : i64_ ,
+} ,@leftPad( ) 	 // c
+u64
+
+    MetaDataX
+@lengthOf(rootA 
+)  ,
+	metadata @calculatedFrom( 	 // 50% %s
+""it's""
+
+) 
+
+    // c
+,
+
+    T {char[] asx@lengthOf( lengthOf 
+) ,  } , 
+
+    // `tick` ""quote"" 'q'
+  /// triple
+  @leftPad 
+(  ) len
+
+    packetx `say ""hi""`
+	, 
+    // `tick` ""quote"" 'q'
+  }	// `tick` ""quote"" 'q'
+")).
+Eval vm_compute in ("<<<M3852>>>" ++ check (runes_of_ascii "packet o {
+    match roots as chars {
+        """ ++ [28040; 24687]%N ++ runes_of_ascii """ : len,
+    },
+}
+
+packet chars {
+    repeat float64 options1,
+    BodyLength {
+        Pad @lengthOf(Foo) `" ++ [233]%N ++ runes_of_ascii "`,// `tick` ""quote"" 'q'
+        repeat uint16 lengthOf `tab	here`,
+    },
+    uint8 leftPad,
+    uint8 pack `a\`,
+    crc,
+    @tag(10)
+    // trailing space 
+    //	t
+    char[] o `say ""hi""`,
+    @calculatedFrom(""a\""b"")
+    // " ++ [27880; 37322]%N ++ runes_of_ascii "
+    u128 @calculatedFrom(""it's"") `" ++ [28040; 24687; 31867; 22411]%N ++ runes_of_ascii "`,
+    tag,
+}
+
+MetaData string_ {
+    int8 zchar,
+    A stringy,
+    A u8x,
+    BodyLength o,
+    /// triple
+    Foo chars `line1
+        line2`,
 }")).
-Eval vm_compute in ("<<<M832>>>" ++ check (runes_of_ascii "packet A {
+Eval vm_compute in ("<<<M1020>>>" ++ check (runes_of_ascii "packet string_{ @leftPad ( )
+    repeat repeatCount
+{ msg_type @lengthOf( BodyLength ) `say ""hi""`
+,
+    match zchar
+as body{ 0:	calculatedFrom, [ """ ++ [233]%N ++ runes_of_ascii "t" ++ [233]%N ++ runes_of_ascii """
+    // @lengthOf(
+    , 7
+    ] // c
+: options1 , } ,
+repeat // @lengthOf(
+zchar
+{len @calculatedFrom(
+""a\""b""
+) ,
+//	t
+//x
+rootA@calculatedFrom( ""`tick`"") `
+`,
+    } , }, repeat // packet A { u8 x, }
+uint64 msg_type ,
+    @tag(
+// @lengthOf(
+// @lengthOf(
+255
+    ) // a // b
+repeat string_ { match
+rootA as i8i8 { [ """ ++ [233]%N ++ runes_of_ascii "t" ++ [233]%N ++ runes_of_ascii """ , ""x y"", ""`tick`"" , ""\" ++ [233]%N ++ runes_of_ascii """	,
+00 ] :
+options1,
+    ""abc"":	u128, }
+    , }, }
+")).
+Eval vm_compute in ("<<<M3607>>>" ++ check (runes_of_ascii "root packet repeatCount {
+}
+
+options {
+    metadata = 65535;
+    falsey = false;
+    i8i8 = '\x00';// 50% %s
+    As = true
+}
+
+//	t
+root packet int {
+    int8 len,// a // b
+    @tag(3)
+    body `it's`,
+    repeat repeatCount f32a,
+    int8 u128 @lengthOf(stringy) `{ , }`,
+    @calculatedFrom(""" ++ [233]%N ++ runes_of_ascii "t" ++ [233]%N ++ runes_of_ascii """)
+    @lengthOf(f32a)
+    @calculatedFrom(""abc"")
+    match roots as int {
+        """ ++ [233]%N ++ runes_of_ascii "t" ++ [233]%N ++ runes_of_ascii """ : A,
+    },
+    @leftPad()
+    char[42] string_ @calculatedFrom(""`tick`""),
+    @calculatedFrom(""`tick`"")
+    repeat calculatedFrom Header,
+}/// triple")).
+Eval vm_compute in ("<<<M4120>>>" ++ check (runes_of_ascii "// top
+packet stringy {
+    // c2
+    BodyLength `crlf
+        line`,
+    // c5
+    @calculatedFrom(""`tick`"")
+    // c8
+    zchar[007] Header,
+    // c13
+    @lengthOf(body)
+    // c16a
+    // c16b
+    zchar[42] pack,
+}
+
+// c22
+packet Z9_ {
+    // c25
+    @lengthOf(i64_)
+    // c28
+    char[255] u `u8 x,`,// c34a
+    // c34b
+    @lengthOf(MetaDataX)
+    // c37a
+    // c37b
+    @calculatedFrom(""\n"")
+    // c40
+    float32 Z9_,// c43a
+    // c43b
+}
+
+options {
+    // c46
+    _x = ""it's"";// c50
+}// c51a
+// c51b")).
+Eval vm_compute in ("<<<M4467>>>" ++ check (runes_of_ascii "packet Packet {
+    @calculatedFrom(""a	b"")
+    @calculatedFrom(""it's"")
+    @calculatedFrom(""// no comment"")
+    trueish {
+        char[] charz @calculatedFrom(""\n""),
+    },
+    @rightPad('0')
+    @tag(255)
+    len {
+        zchar[65535] f32a,
+    },
+    f64 i8i8 `line1
+        line2`,
+    @rightPad('\x00')
+    repeat int `two words`,
+    As Pad `{ , }`,
+    @rightPad('\x00')
+    pack `doc`,
+    @tag(1)
+    f32 tag,//x
+    zchar[3] i64_,
+    uint64 trueish @calculatedFrom(""CRC32""),
+}")).
+Eval vm_compute in ("<<<M719>>>" ++ check (runes_of_ascii "
+root packet stringy {
+match pack as x_y_z
+{	""CRC32"" : asx
+,
+3	:
+    roots , """"
+    // `tick` ""quote"" 'q'
+    : zchar 255 : A // `tick` ""quote"" 'q'
+,
+    [
+10 , // trailing space 
+""a	b""
+, ""a	b"" //
+,
+255, """ ++ [233]%N ++ runes_of_ascii "t" ++ [233]%N ++ runes_of_ascii """ ,
+""CRC32""
+// a // b
+//x
+,
+// trailing space 
+// @lengthOf(
+3
+    ]
+//	t
+// " ++ [128512]%N ++ runes_of_ascii " emoji
+: packetx ,1 :options1
+    ,
+} ,
+}
+    packet i64_
+{
+    } packet roots {
+    @tag( 0123456789) repeat
+    x Packet, } MetaData Logon
+{
+}options {
+    tag = """ ++ [128512]%N ++ runes_of_ascii """}
+// c
+")).
+Eval vm_compute in ("<<<M3548>>>" ++ check (runes_of_ascii "options {
+    StringPrefixLenType = u8;
+    ArrayPrefixLenType = u16;
+    FixedStringPadChar = '0';
+}
+packet Fill {
+    char[6] Acct,
+    u64 venue,
+}
+root packet Logout {
+    char[] Tail,
+    repeat i8 f1,
+    float64 msgKind,
+    zchar[3] Note,
+    uint64 count,
+    @leftPad(' ') char[12] Px,
+    u32 OrderId,
+    u16 tag7 @lengthOf(Body),
+    match OrderId as Body {
+        [35, 107] : Fill,
+    },
+    u32 Ref @calculatedFrom(""CRC32""),
+}
+")).
+Eval vm_compute in ("<<<M1120>>>" ++ check (runes_of_ascii "root
+packet packetx
+{
+    char[255
+    // c
+    ]
+    T, @tag(
+    00
+    )
+    // packet A { u8 x, }
+    len
+{ string repeatCount
+    `two words`, repeat Logon u , uint64 lengthOf , /// triple
+char[]
+Logon `{ , }`
+    , } ,repeat u64 asx , @calculatedFrom( ""a\""b""
+//
+// c
+) repeat int8 MetaDataX ,@calculatedFrom( ""abc""
+    )	uint64 tag
+`// not a comment`, @tag( 255 ) i8 len
+, // packet A { u8 x, }
+uint8 chars `it's` , }
+")).
+Eval vm_compute in ("<<<M4297>>>" ++ check (runes_of_ascii "options {
+}
+
+packet x {
+    @lengthOf(BodyLength)
+    charz _x `doc`,
+    //x
+    // packet A { u8 x, }
+    @calculatedFrom(""abc"")
+    o matchKey,
+    @tag(255)
+    char repeatCount @lengthOf(i64_),
+}
+
+root packet len {
+    @leftPad('\x00')
+    //x
+    // " ++ [27880; 37322]%N ++ runes_of_ascii "
+    Z9_ @lengthOf(asx) ``,
+}
+
+packet metadata {
+    char[00] packetx @lengthOf(i8i8),
+    int32 Packet @lengthOf(x_y_z),
+    @tag(1)
+    repeat uint8 len,
+}")).
+Eval vm_compute in ("<<<M123>>>" ++ check (runes_of_ascii "packet zchar{ } packet
+    // " ++ [27880; 37322]%N ++ runes_of_ascii "
+    Logon{
+// a // b
+// @lengthOf(
+char[  42
+    ]zchar  ,
+}// " ++ [27880; 37322]%N ++ runes_of_ascii "
+MetaData // " ++ [128512]%N ++ runes_of_ascii " emoji
+calculatedFrom {char[
+10]	x_y_z `it's` , char[ 0 ] options1
+    //	t
+    ,
+float32 Logon `" ++ [28040; 24687; 31867; 22411]%N ++ runes_of_ascii "`
+    , string stringy `line1
+line2` , zchar[ 42 ]
+BodyLength,options1 f32a
+`it's` , } MetaData roots {string
+i64_// @lengthOf(
+, }
+// @lengthOf(
+// packet A { u8 x, }
+MetaData A
+    {
+}")).
+Eval vm_compute in ("<<<M1121>>>" ++ check (runes_of_ascii "// " ++ [27880; 37322]%N ++ runes_of_ascii "
+packet u128	{tag
+pack , int16
+stringy// 50% %s
+,
+}options
+{ tag= 7
+;}
+packet
+falsey {}packet
+string_ { uint16 len
+    `line1
+line2`//	t
+, f64 Foo@calculatedFrom(
+""it's""), @tag( 007 ) @leftPad(
+// " ++ [27880; 37322]%N ++ runes_of_ascii "
+// " ++ [27880; 37322]%N ++ runes_of_ascii "
+' ' ) char[] string_
+`100% of %d`, @lengthOf(
+A
+) i8i8{ // packet A { u8 x, }
+float64
+falsey @lengthOf( body ) ,
+    } ,
+char[65535  ] i8i8  `// not a comment` ,  }
+")).
+Eval vm_compute in ("<<<M1134>>>" ++ check (runes_of_ascii "MetaData lengthOf {//
+char[ 00 ] falsey ,
+string packetx `crlf
+line` ,
+    charz _x , crc
+metadata , uint32 metadata//x
+`tab	here`	, u16
+// @lengthOf(
+// " ++ [27880; 37322]%N ++ runes_of_ascii "
+i64_ ,}
+    MetaData As {
+char[]crc
+    , i8 T , u8
+u
+    , // `tick` ""quote"" 'q'
+string crc`line1
+line2` , i16 leftPad, }
+    root
+packet // c
+crc
+{
+    // packet A { u8 x, }
+    i32 uint8x `line1
+line2` , }")).
+Eval vm_compute in ("<<<M350>>>" ++ check (runes_of_ascii "MetaData asx
+{int32 leftPad,
+    options1 packetx`" ++ [233]%N ++ runes_of_ascii "`	,	zchar[	1 ] rootA , u8x  repeatCount
+`// not a comment`, i8i8 uint8x
+, roots asx
+    `say ""hi""`  , }// trailing space 
+root
+packet msg_type { @tag( 0
+)
+repeat Foo
+    `it's` ,zchar[ 65535	]leftPad	`doc` ,// c
+Packet	@calculatedFrom(  ""a	b""
+// " ++ [27880; 37322]%N ++ runes_of_ascii "
+//x
+) , } packet trueish {
+repeat leftPad u8x , }")).
+Eval vm_compute in ("<<<M415>>>" ++ check (runes_of_ascii "packet
+    // " ++ [128512]%N ++ runes_of_ascii " emoji
+    Logon{@calculatedFrom(""x y"" ) @rightPad
+    //x
+    ( ' ' ) @lengthOf( crc// 50% %s
+)
+    // `tick` ""quote"" 'q'
+    i16
+    stringy
+@calculatedFrom(	""`tick`"") , match
+    // 50% %s
+    a1 as a1 {
+    [	0
+, 42]
+//
+// trailing space 
+:  falsey , 1:
+    // c
+    rootA ,
+    """ ++ [233]%N ++ runes_of_ascii "t" ++ [233]%N ++ runes_of_ascii """ :
+packetx , 10 : x
+, }
+,
+    }
+")).
+Eval vm_compute in ("<<<M3576>>>" ++ check (runes_of_ascii "options {
+    LittleEndian=	true ;
+
+    } 
+packet Logon{
+u8
+
+x
+    ,
+}	packet  Logout
+
+    { u16  reason,}
+root 
+packet
+
+    Frame {	u16
+    Kind,
+    u16  Kind2
+
+    ,
+match
+Kind  as 
+Body
+{1 :  Logon
+	,
+[2
+
+, 3	,
+
+    4 ]
+: Logout,  100
+    :
+
+Logon ,}
+
+,match Kind2	as	Trailer {
+0
+
+:
+    Logout ,	} ,
+
+    }
+
+")).
+Eval vm_compute in ("<<<M4396>>>" ++ check (runes_of_ascii "// a // b
+    MetaData
+	int  {u8
+	string_
+    `two words`
+, 
+        //	t
+	i32
+
+    A
+
+    `
+` ,
+    }
+    root
+
+    packet 
+rootA{ @leftPad ( 
+)
+match
+x	as
+    falsey {  [ 10  ]
+
+    :
+    string_	0123456789 :
+
+    //
+    uint8x
+    , },	@tag( 
+
+    // c
+    0	)
+x_y_z 
+u  ,
+}
+root 
+packet zchar	{}
+")).
+Eval vm_compute in ("<<<M4026>>>" ++ check (runes_of_ascii "  // top
+
+	options// c0a
+    	// c0b
+	{// c1
+      LittleEndian 
+  // c2
+= true 	 // c4
+	;
+    // c5
+	} // c6a
+    // c6b
+
+	root 	 // c7a
+    	// c7b
+  	packet 
+P// c9a
+    // c9b
+
+{repeat	// c11
+  char
+    cs // c13
+	,
+        // c14
+  u8 	 // c15
+    x	// c16a
+  // c16b
+,
+} // c18a
+
+// c18b
+")).
+Eval vm_compute in ("<<<M4260>>>" ++ check (runes_of_ascii "root
+	packet charz	{ match 
+        // trailing space 
+
+// trailing space 
+
+  f32a
+    as
+lengthOf  {
+[ ""1""] :asx ,
+""" ++ [233]%N ++ runes_of_ascii "t" ++ [233]%N ++ runes_of_ascii """
+:f32a
+	,
+// c
+  	[7 
+, ""1""
+
+    , ""\n""
+]
+
+    :	// 50% %s
+  uint8x , """"
+: rootA
+, }
+
+    ,
+
+    } 
+    // " ++ [27880; 37322]%N ++ runes_of_ascii "
+  // @lengthOf(
+	packet
+
+    Header
+
+{}
+
+")).
+Eval vm_compute in ("<<<M1862>>>" ++ check (runes_of_ascii "packet	packetx { // trailing space 
+x_y_z x_y_z
+{
+string
+charz ,
+string x// @lengthOf(
+`two words`
+    ,  u8x { // `tick` ""quote"" 'q'
+charz `100% of %d` // packet A { u8 x, }
+,}// " ++ [27880; 37322]%N ++ runes_of_ascii "
+,} , }
+    // a // b
+    packet metadata {  @leftPad ( '0') repeat i32 options1 ,u64 uint8x , }
+")).
+Eval vm_compute in ("<<<M1859>>>" ++ check (runes_of_ascii "packet	packetx i64 // trailing space 
+x_y_z
+{
+string
+charz ,
+string x// @lengthOf(
+`two words`
+    ,  u8x { // `tick` ""quote"" 'q'
+charz `100% of %d` // packet A { u8 x, }
+,}// " ++ [27880; 37322]%N ++ runes_of_ascii "
+,} , }
+    // a // b
+    packet metadata {  @leftPad ( '0') repeat i32 options1 ,u64 uint8x , }
+")).
+Eval vm_compute in ("<<<M2046>>>" ++ check (runes_of_ascii "packet	packetx { // trailing space 
+x_y_z
+{
+string
+charz ,
+string x// @lengthOf(
+`two words`
+    ,  u8x { // `tick` ""quote"" 'q'
+charz `100% of %d` // packet A { u8 x, }
+,}// " ++ [27880; 37322]%N ++ runes_of_ascii "
+" ++ [8232]%N ++ runes_of_ascii ",} , }
+    // a // b
+    packet metadata {  @leftPad ( '0') repeat i32 options1 ,u64 uint8x , }
+")).
+Eval vm_compute in ("<<<M1983>>>" ++ check (runes_of_ascii "packet	packetx { // trailing space 
+x_y_z
+{
+string
+charz ,
+string x// @lengthOf(
+`two words`
+    ,  u8x { // `tick` ""quote"" 'q'
+charz `100% of %d` // packet A { u8 x, }
+,}// " ++ [27880; 37322]%N ++ runes_of_ascii "
+,} , }
+    // a // b
+    packet metadata {  @leftPad ( )'0' repeat i32 options1 ,u64 uint8x , }
+")).
+Eval vm_compute in ("<<<M2140>>>" ++ check (runes_of_ascii "packet// packet A { u8 x, }
+repeatCount	{// packet A { u8 x, }
+@leftPad ( '\x00'
+) repeat u8x MetaDataX `crlf
+line`,
+    repeat
+    char[] MetaDataX
+    ,
+u64	uint8x@calculatedFrom( @calculatedFrom(""a\""b""
+// c
+// packet A { u8 x, }
+) `tab	here`
+,//
+}MetaData pack
+    {
+    }
+")).
+Eval vm_compute in ("<<<M1861>>>" ++ check (runes_of_ascii "packet	packetx { // trailing space 
+
+{
+string
+charz ,
+string x// @lengthOf(
+`two words`
+    ,  u8x { // `tick` ""quote"" 'q'
+charz `100% of %d` // packet A { u8 x, }
+,}// " ++ [27880; 37322]%N ++ runes_of_ascii "
+,} , }
+    // a // b
+    packet metadata {  @leftPad ( '0') repeat i32 options1 ,u64 uint8x , }
+")).
+Eval vm_compute in ("<<<M1924>>>" ++ check (runes_of_ascii "packet	packetx { // trailing space 
+x_y_z
+{
+string
+charz ,
+string x// @lengthOf(
+`two words`
+    ,  u8x { // `tick` ""quote"" 'q'
+charz ' ' // packet A { u8 x, }
+,}// " ++ [27880; 37322]%N ++ runes_of_ascii "
+,} , }
+    // a // b
+    packet metadata {  @leftPad ( '0') repeat i32 options1 ,u64 uint8x , }
+")).
+Eval vm_compute in ("<<<M2175>>>" ++ check (runes_of_ascii "packet// packet A { u8 x, }
+repeatCount	{// packet A { u8 x, }
+@leftPad ( '\x00'
+) repeat u8x MetaDataX `crlf
+line`,
+    repeat
+    char[] MetaDataX
+    ,
+u64	uint8x@calculatedFrom(""a\""b""
+// c
+// packet A { u8 x, }
+) `tab	here`
+,//
+}MetaData pack pack
+    {
+    }
+")).
+Eval vm_compute in ("<<<M2125>>>" ++ check (runes_of_ascii "packet// packet A { u8 x, }
+repeatCount	{// packet A { u8 x, }
+@leftPad ( '\x00'
+) repeat u8x MetaDataX `crlf
+line`,
+    repeat
+    char[] MetaDataX
+    , ,
+u64	uint8x@calculatedFrom(""a\""b""
+// c
+// packet A { u8 x, }
+) `tab	here`
+,//
+}MetaData pack
+    {
+    }
+")).
+Eval vm_compute in ("<<<M2057>>>" ++ check (runes_of_ascii "packet// packet A { u8 x, }
+{	repeatCount// packet A { u8 x, }
+@leftPad ( '\x00'
+) repeat u8x MetaDataX `crlf
+line`,
+    repeat
+    char[] MetaDataX
+    ,
+u64	uint8x@calculatedFrom(""a\""b""
+// c
+// packet A { u8 x, }
+) `tab	here`
+,//
+}MetaData pack
+    {
+    }
+")).
+Eval vm_compute in ("<<<M2182>>>" ++ check (runes_of_ascii "packet// packet A { u8 x, }
+repeatCount	{// packet A { u8 x, }
+@leftPad ( '\x00'
+) repeat u8x MetaDataX `crlf
+line`,
+    repeat
+    char[] MetaDataX
+    ,
+u64	uint8x@calculatedFrom(""a\""b""
+// c
+// packet A { u8 x, }
+) `tab	here`
+,//
+}MetaData pack
+    T
+    }
+")).
+Eval vm_compute in ("<<<M2172>>>" ++ check (runes_of_ascii "packet// packet A { u8 x, }
+repeatCount	{// packet A { u8 x, }
+@leftPad ( '\x00'
+) repeat u8x MetaDataX `crlf
+line`,
+    repeat
+    char[] MetaDataX
+    ,
+u64	uint8x@calculatedFrom(""a\""b""
+// c
+// packet A { u8 x, }
+) `tab	here`
+,//
+}root pack
+    {
+    }
+")).
+Eval vm_compute in ("<<<M541>>>" ++ check (runes_of_ascii "root
+packet MetaDataX{	pack {u8x { uint16 uint8x,
+    // " ++ [27880; 37322]%N ++ runes_of_ascii "
+    } ,
+} , } packet
+rootA { A charz `" ++ [233]%N ++ runes_of_ascii "` , float64 rootA `" ++ [28040; 24687; 31867; 22411]%N ++ runes_of_ascii "` , } MetaData Z9_ { pack
+repeatCount
+    `u8 x,` ,string x `100% of %d`,string repeatCount//	t
+`a\`
+    ,
+} // packet A { u8 x, }")).
+Eval vm_compute in ("<<<M2154>>>" ++ check (runes_of_ascii "packet// packet A { u8 x, }
+repeatCount	{// packet A { u8 x, }
+@leftPad ( '\x00'
+) repeat u8x MetaDataX `crlf
+line`,
+    repeat
+    char[] MetaDataX
+    ,
+u64	uint8x@calculatedFrom(""a\""b""
+// c
+// packet A { u8 x, }
+) 
+,//
+}MetaData pack
+    {
+    }
+")).
+Eval vm_compute in ("<<<M1465>>>" ++ check (runes_of_ascii "packet calculatedFrom
+{ @calculatedFrom( ""a\\"" ) zchar[ 4294967296 ]
+calculatedFrom pack @lengthOf( )	`100% of %d` ,char[]body@calculatedFrom( ""// no comment"" )  ,
+@tag( 007) //x
+int8
+leftPad`it's` , repeat pack
+    { repeat char[ 3] body
+,},
+}")).
+Eval vm_compute in ("<<<M1460>>>" ++ check (runes_of_ascii "packet calculatedFrom
+{ @calculatedFrom( ""a\\"" ) zchar[ 4294967296 ]
+@lengthOf(calculatedFrom pack )	`100% of %d` ,char[]body@calculatedFrom( ""// no comment"" )  ,
+@tag( 007) //x
+int8
+leftPad`it's` , repeat pack
+    { repeat char[ 3] body
+,},
+}")).
+Eval vm_compute in ("<<<M3462>>>" ++ check (runes_of_ascii "packet B // c1
+{ // c2
+u8 // c3
+a // c4a
+  // c4b
+, // c5
+string // c6a
+  // c6b
+s // c7a
+  // c7b
+, } root // c10a
+  // c10b
+packet // c11
+P { // c13
+u16 L // c15
+@lengthOf( B )
+    // c18
+, // c19
+B , // c21
+u8 // c22
+t // c23
+, // c24
+} // c25
+")).
+Eval vm_compute in ("<<<M1466>>>" ++ check (runes_of_ascii "packet calculatedFrom
+{ @calculatedFrom( ""a\\"" ) zchar[ 4294967296 ]
+calculatedFrom int64 pack )	`100% of %d` ,char[]body@calculatedFrom( ""// no comment"" )  ,
+@tag( 007) //x
+int8
+leftPad`it's` , repeat pack
+    { repeat char[ 3] body
+,},
+}")).
+Eval vm_compute in ("<<<M1995>>>" ++ check (runes_of_ascii "packet	packetx { // trailing space 
+x_y_z
+{
+string
+charz ,
+string x// @lengthOf(
+`two words`
+    ,  u8x { // `tick` ""quote"" 'q'
+charz `100% of %d` // packet A { u8 x, }
+,}// " ++ [27880; 37322]%N ++ runes_of_ascii "
+,} , }
+    // a // b
+    packet metadata {  @leftPad ( '0')")).
+Eval vm_compute in ("<<<M747>>>" ++ check (runes_of_ascii "// `tick` ""quote"" 'q'
+root
+    packet
+len
+{f64
+matchKey
+`{ , }`
+, pack @calculatedFrom( """ ++ [28040; 24687]%N ++ runes_of_ascii """ ), string roots
+@calculatedFrom(  """" )  `u8 x,` , u16
+x_y_z ,
+    // " ++ [27880; 37322]%N ++ runes_of_ascii "
+    @rightPad (
+'0')
+repeat len ,
+uint64 i64_`100% of %d`	,}")).
+Eval vm_compute in ("<<<M3444>>>" ++ check (runes_of_ascii "packet Inner // c1
+{ u8 // c3a
+  // c3b
+a // c4a
+  // c4b
+, // c5
+} // c6a
+  // c6b
+root // c7a
+  // c7b
+packet
+    // c8
+P { // c10
+Inner // c11
+ref_obj , u8 // c14a
+  // c14b
+x // c15a
+  // c15b
+, } // c17a
+  // c17b
+")).
+Eval vm_compute in ("<<<M527>>>" ++ check (runes_of_ascii "root packet len { /// triple
+@calculatedFrom( ""`tick`"" // " ++ [128512]%N ++ runes_of_ascii " emoji
+)
+options1
+repeatCount// a // b
+`crlf
+line` ,
+@lengthOf( MetaDataX ) repeat _x	u128
+, }packet uint8x{ @tag( 1)rootA ,} // packet A { u8 x, }")).
+Eval vm_compute in ("<<<M817>>>" ++ check (runes_of_ascii "  root packet	_x	{u `tab	here`
+,
+    @lengthOf(A ) // packet A { u8 x, }
+char[ 007 ]i8i8	, } options
+{
+i8i8= """ ++ [128512]%N ++ runes_of_ascii """ options1	= ' '// " ++ [128512]%N ++ runes_of_ascii " emoji
+; // c
+packetx= true;MetaDataX
+    = 255; T
+    = """ ++ [233]%N ++ runes_of_ascii "t" ++ [233]%N ++ runes_of_ascii """ }
+")).
+Eval vm_compute in ("<<<M3468>>>" ++ check (runes_of_ascii "options { FixedStringPadFromLeft =
+    // c3
+true // c4
+; } // c6a
+  // c6b
+root packet P // c9
+{ // c10a
+  // c10b
+char[ // c11
+4 // c12
+] // c13a
+  // c13b
+z // c14a
+  // c14b
+, }
+    // c16
+")).
+Eval vm_compute in ("<<<M1955>>>" ++ check (runes_of_ascii "packet	packetx { // trailing space 
+x_y_z
+{
+string
+charz ,
+string x// @lengthOf(
+`two words`
+    ,  u8x { // `tick` ""quote"" 'q'
+charz `100% of %d` // packet A { u8 x, }
+,}// " ++ [27880; 37322]%N ++ runes_of_ascii "
+,} ,")).
+Eval vm_compute in ("<<<M4493>>>" ++ check (runes_of_ascii "packet a1 {
+    @leftPad()
+    zchar[7] calculatedFrom,
+    //
+}
+
+/// triple
+root packet x {
+}
+
+options {
+    pack = ""abc""
+    trueish = 255;
+    BodyLength = u64;
+    Z9_ = i64;
+}")).
+Eval vm_compute in ("<<<M2189>>>" ++ check (runes_of_ascii "packet// packet A { u8 x, }
+repeatCount	{// packet A { u8 x, }
+@leftPad ( '\x00'
+) repeat u8x MetaDataX `crlf
+line`,
+    repeat
+    char[] MetaDataX
+    ,
+u64	uint8x@calc")).
+Eval vm_compute in ("<<<M135>>>" ++ check (runes_of_ascii "// packet A { u8 x, }
+options { float =i8 ; int = uint16 BodyLength = '\x00' ;chars=
+false } packet msg_type { } //	t
+options
+{ BodyLength =	false Pad
+= string }
+")).
+Eval vm_compute in ("<<<M40>>>" ++ check (runes_of_ascii "MetaData zchar {u16/// triple
+A `line1
+line2` ,} packet// packet A { u8 x, }
+zchar{} root
+    packet stringy { //
+match	lengthOf  as lengthOf { 65535 :Pad} , }
+")).
+Eval vm_compute in ("<<<M1708>>>" ++ check (runes_of_ascii "options { } packet Packet{char[] i64_ ,
+@tag(
+    255) match
+crc as i8i8 i8i8{""{,}"" : trueish """" : Pad , ""a\\"" :
+Foo ,
+    1 :packetx
+, """ ++ [128512]%N ++ runes_of_ascii """ : trueish , } , }")).
+Eval vm_compute in ("<<<M1743>>>" ++ check (runes_of_ascii "options { } packet Packet{char[] i64_ ,
+@tag(
+    255) match
+crc as i8i8{""{,}"" : trueish """" : Pad Pad , ""a\\"" :
+Foo ,
+    1 :packetx
+, """ ++ [128512]%N ++ runes_of_ascii """ : trueish , } , }")).
+Eval vm_compute in ("<<<M2405>>>" ++ check (runes_of_ascii "
+packet MetaDataX
+{
+    @leftPad
+( // a // b
+'0'
+) i8 u MetaDataX
+@lengthOf(
+    ) `say ""hi""` ,	} MetaData BodyLength {
+    asx
+x_y_z `" ++ [233]%N ++ runes_of_ascii "`
+, uint64 u128 , }
+")).
+Eval vm_compute in ("<<<M1833>>>" ++ check (runes_of_ascii "options { } packet Packet{char[] i64_ ,
+@tag(
+    255) match
+crc as i8i8{? ""{,}"" : trueish """" : Pad , ""a\\"" :
+Foo ,
+    1 :packetx
+, """ ++ [128512]%N ++ runes_of_ascii """ : trueish , } , }")).
+Eval vm_compute in ("<<<M1838>>>" ++ check (runes_of_ascii "options { } packet Packet{char[] i64_ ,
+@tag(
+    255) match
+crc as i8i8{""{,}"" : truei<sh """" : Pad , ""a\\"" :
+Foo ,
+    1 :packetx
+, """ ++ [128512]%N ++ runes_of_ascii """ : trueish , } , }")).
+Eval vm_compute in ("<<<M1749>>>" ++ check (runes_of_ascii "options { } packet Packet{char[] i64_ ,
+@tag(
+    255) match
+crc as i8i8{""{,}"" : trueish """" : Pad ""a\\"" , :
+Foo ,
+    1 :packetx
+, """ ++ [128512]%N ++ runes_of_ascii """ : trueish , } , }")).
+Eval vm_compute in ("<<<M1687>>>" ++ check (runes_of_ascii "options { } packet Packet{char[] i64_ ,
+@tag(
+    255 match
+crc as i8i8{""{,}"" : trueish """" : Pad , ""a\\"" :
+Foo ,
+    1 :packetx
+, """ ++ [128512]%N ++ runes_of_ascii """ : trueish , } , }")).
+Eval vm_compute in ("<<<M2359>>>" ++ check (runes_of_ascii "
+; MetaDataX
+{
+    @leftPad
+( // a // b
+'0'
+) i8 u @lengthOf(
+MetaDataX
+    ) `say ""hi""` ,	} MetaData BodyLength {
+    asx
+x_y_z `" ++ [233]%N ++ runes_of_ascii "`
+, uint64 u128 , }
+")).
+Eval vm_compute in ("<<<M1821>>>" ++ check (runes_of_ascii "options { } packet Packet{char[] i64_ ,
+@tag(
+    255) match
+crc as i8i8{""{,}"" : trueish """" : Pad , ""a\\"" :
+Foo ,
+    1 :packetx
+, """ ++ [128512]%N ++ runes_of_ascii """ : trueish , }")).
+Eval vm_compute in ("<<<M1782>>>" ++ check (runes_of_ascii "options { } packet Packet{char[] i64_ ,
+@tag(
+    255) match
+crc as i8i8{""{,}"" : trueish """" : Pad , ""a\\"" :
+Foo ,
+    1 :
+, """ ++ [128512]%N ++ runes_of_ascii """ : trueish , } , }")).
+Eval vm_compute in ("<<<M463>>>" ++ check (runes_of_ascii "packet // 50% %s
+As { repeat
+    // `tick` ""quote"" 'q'
+    zchar[
+42 ]
+A , int64 charz@lengthOf( repeatCount)
+`` , repeat
+char[  00]
+zchar
+,}")).
+Eval vm_compute in ("<<<M4085>>>" ++ check (runes_of_ascii "
+
+  MetaData
+float
+	{ uint8
+	BodyLength 
+
+// c
+    ,	}MetaData
+charz	{ 
+float32 
+trueish`a\`
+    ,
+    i16
+
+    metadata `say ""hi""`,
+	}")).
+Eval vm_compute in ("<<<M3677>>>" ++ check (runes_of_ascii "packet
+A
+    {
+match  k	as n	{[  ""a"" 
+, 22
+, ""c c""
+
+    ,
+4
+
+    ,  ""e""
+,66 , 
+""g""
+
+,
+8
+
+]
+
+:
+
+    B
+    ,
+    2 :	C	} 
+,}
+")).
+Eval vm_compute in ("<<<M4484>>>" ++ check (runes_of_ascii "MetaData Logon {
+    zchar[10] float `two words`,
+    string calculatedFrom,
+    u8 tag `// not a comment`,
+    string int,
+}// " ++ [27880; 37322]%N)).
+Eval vm_compute in ("<<<M976>>>" ++ check (runes_of_ascii "// packet A { u8 x, }
+MetaData int { zchar[ // `tick` ""quote"" 'q'
+42 ]
+x `" ++ [233]%N ++ runes_of_ascii "`  ,
+uint8 _x
+    `crlf
+line`, len u ``, } //")).
+Eval vm_compute in ("<<<M3291>>>" ++ check (runes_of_ascii "MetaData metadata { } MetaData rootA { i8 i64_ , roots options1 `a\` , lengthOf
+// c
+Header , Z9_ Foo , int16 BodyLength , }")).
+Eval vm_compute in ("<<<M1781>>>" ++ check (runes_of_ascii "options { } packet Packet{char[] i64_ ,
+@tag(
+    255) match
+crc as i8i8{""{,}"" : trueish """" : Pad , ""a\\"" :
+Foo ,
+    1")).
+Eval vm_compute in ("<<<M231>>>" ++ check (runes_of_ascii "//	t
+packet rootA
+{ @calculatedFrom( ""`tick`"")f32a { char[] calculatedFrom  ,
+} ,
+@tag(4294967296
+) float32 o ,
+}")).
+Eval vm_compute in ("<<<M711>>>" ++ check (runes_of_ascii "root packet int {	match zchar  as
+int	{ ""\" ++ [233]%N ++ runes_of_ascii """ :	leftPad// " ++ [128512]%N ++ runes_of_ascii " emoji
+, }
+,
+MetaDataX@calculatedFrom( """ ++ [233]%N ++ runes_of_ascii "t" ++ [233]%N ++ runes_of_ascii """) ,	}
+")).
+Eval vm_compute in ("<<<M3330>>>" ++ check (runes_of_ascii "MetaData float { uint8 BodyLength , } // c
+MetaData charz { float32 trueish `a\` , i16 metadata `say ""hi""` , }")).
+Eval vm_compute in ("<<<M936>>>" ++ check (runes_of_ascii "MetaData Pad
+{ repeatCount
+    asx
+    ,
+    A lengthOf `// not a comment` ,} options{ roots =
+42 int =0 }
+")).
+Eval vm_compute in ("<<<M3056>>>" ++ check (runes_of_ascii "packet A {
+    u16 len @lengthOf(body) `x
+`,
+    u32 crc @calculatedFrom(""CRC32"") `x
+`,
+    string body,
+}")).
+Eval vm_compute in ("<<<M2995>>>" ++ check (runes_of_ascii "packet A {
   match k as n {
-    [""a"", 22, ""c c"", 4, ""e"", 66] : B
+    [""a"", ""bb"", 007, ""d"", ""e"", 66, ""g"", ""h"", 9, ""j""] : B,
     2 : C
   },
 }")).
-Eval vm_compute in ("<<<M1236>>>" ++ check (runes_of_ascii "packet o { @tag( 42 ) repeat x { char[ 0123456789 ] i64_ , } // c
-, } options { }")).
-Eval vm_compute in ("<<<M915>>>" ++ check (runes_of_ascii "packet A { Inner { match k as n { [1,22,007,4,5,66,7,8,9,10,11,12] : B, }, }, }")).
-Eval vm_compute in ("<<<M1519>>>" ++ check (runes_of_ascii "packet A {
+Eval vm_compute in ("<<<M400>>>" ++ check (runes_of_ascii "MetaData
+zchar
+    { _x
+charz `crlf
+line` , packetx Foo `crlf
+line` , char[]	A// " ++ [128512]%N ++ runes_of_ascii " emoji
+`
+` , }")).
+Eval vm_compute in ("<<<M4351>>>" ++ check (runes_of_ascii "MetaData charz
+{ char
+
+crc
+
+    ,
+options1  body
+,	zchar[
+
+255
+]
+
+A ,
+
+}
+packet 
+Packet { }")).
+Eval vm_compute in ("<<<M790>>>" ++ check (runes_of_ascii "MetaData
+    options1 { len chars // c
+`crlf
+line`
+,  charz Logon // trailing space 
+`
+`,}
+")).
+Eval vm_compute in ("<<<M3696>>>" ++ check (runes_of_ascii "options {
+    lengthOf = true
+    int = ""1"";
+    string_ = false;//
+    msg_type = ""CRC32""
+}")).
+Eval vm_compute in ("<<<M3498>>>" ++ check (runes_of_ascii "packet order_item	{u8
+a 
+, }
+
+    root packet  new_order
+	{order_item
+    ,
+u8  x
+
+,	}
+")).
+Eval vm_compute in ("<<<M2212>>>" ++ check (runes_of_ascii "_x MetaData {string x `// not a comment` , string
+i64_ // trailing space 
+`a\` ,
+    }
+")).
+Eval vm_compute in ("<<<M4028>>>" ++ check (runes_of_ascii "packet A {
     match k as n {
-        [1, ""bb""] : B,
+        [1, 22, ""c c"", 4, 5] : B,
         2 : C,
     },
 }")).
-Eval vm_compute in ("<<<M1720>>>" ++ check (runes_of_ascii "
-packet A{ match k
-
-    as 
-n
-	{
-	[
-""a""] :
-    B
-
-2 : C}
-
-    ,
-}
-
-")).
-Eval vm_compute in ("<<<M1318>>>" ++ check (runes_of_ascii "MetaData _x { zchar[ 4294967296
-// c
-] lengthOf `// not a comment` , }")).
-Eval vm_compute in ("<<<M850>>>" ++ check (runes_of_ascii "packet A { Inner { match k as n { [1,22,007,4,5,66,7] : B, }, }, }")).
-Eval vm_compute in ("<<<M777>>>" ++ check (runes_of_ascii "packet A {
+Eval vm_compute in ("<<<M1413>>>" ++ check (runes_of_ascii "root packet SimpleMessage {
+	uint16 MsgType `" ++ [28040; 24687; 31867; 22411]%N ++ runes_of_ascii "`,
+	string JsonBody `Json" ++ [23383; 31526; 20018; 28040; 24687; 20307]%N ++ runes_of_ascii "`,
+}")).
+Eval vm_compute in ("<<<M2939>>>" ++ check (runes_of_ascii "packet A {
   match k as n {
-    [1, 22] : B,
+    [""a"", 22, ""c c"", 4, ""e"", 66] : B,
     2 : C
   },
 }")).
-Eval vm_compute in ("<<<M929>>>" ++ check (runes_of_ascii "packet A {
-    B b `
-`,
-    B `
-`,
-    repeat B bs `
-`,
-}")).
-Eval vm_compute in ("<<<M1072>>>" ++ check (runes_of_ascii "packet A {} packet B {} MetaData M {} options {}")).
-Eval vm_compute in ("<<<M1103>>>" ++ check (runes_of_ascii "
-// c
-MetaData zchar { zchar[ 3 ] Pad , }")).
-Eval vm_compute in ("<<<M170>>>" ++ check (runes_of_ascii "options { Foo
-    //	t
-    = string }
+Eval vm_compute in ("<<<M2210>>>" ++ check (runes_of_ascii " _x {string x `// not a comment` , string
+i64_ // trailing space 
+`a\` ,
+    }
 ")).
-Eval vm_compute in ("<<<M1089>>>" ++ check (runes_of_ascii "packet A { @tag( // a
- 1 ) u8 x, }")).
-Eval vm_compute in ("<<<M1851>>>" ++ check (runes_of_ascii "packet int {
-}
-
-packet u128 {
+Eval vm_compute in ("<<<M2947>>>" ++ check (runes_of_ascii "packet A {
+  match k as n {
+    [1, 22, 007, 4, 5, 66, 7] : B
+    2 : C
+  },
 }")).
-Eval vm_compute in ("<<<M916>>>" ++ check (runes_of_ascii "packet A {
+Eval vm_compute in ("<<<M3362>>>" ++ check (runes_of_ascii "// c
+MetaData _x { f64 charz `tab	here` , } options { BodyLength = """ ++ [233]%N ++ runes_of_ascii "t" ++ [233]%N ++ runes_of_ascii """ ; }")).
+Eval vm_compute in ("<<<M4521>>>" ++ check (runes_of_ascii "root packet msg_type {
+    @lengthOf(u8x)
+    string pack @lengthOf(pack),
+}")).
+Eval vm_compute in ("<<<M2896>>>" ++ check (runes_of_ascii "packet A {
+  match k as n {
+    [""a"", ""bb"", ""c c""] : B,
+    2 : C
+  },
+}")).
+Eval vm_compute in ("<<<M72>>>" ++ check (runes_of_ascii "/// triple
+root packet/// triple
+Foo {char[
+0 ]Z9_ ,  } // @lengthOf(")).
+Eval vm_compute in ("<<<M3409>>>" ++ check (runes_of_ascii "packet o { @tag(
+// c
+4294967296 ) options1 @lengthOf( u8x ) `" ++ [233]%N ++ runes_of_ascii "` , }")).
+Eval vm_compute in ("<<<M3483>>>" ++ check (runes_of_ascii "root
+packet
+P {
+repeat
+    string
+    ss
+, repeat	u16
+ns
+,  }
+")).
+Eval vm_compute in ("<<<M3750>>>" ++ check (runes_of_ascii "root packet P {
+    u8 s_u8,
+    repeat u8 r_u8,
+    u16 b_len,
+}")).
+Eval vm_compute in ("<<<M2890>>>" ++ check (runes_of_ascii "packet A {
+  match k as n {
+    [1, ""bb""] : B
+    2 : C
+  },
+}")).
+Eval vm_compute in ("<<<M1361>>>" ++ check (runes_of_ascii "root packet stringy {
+repeat char[]
+zchar `it's`
+    , }
+")).
+Eval vm_compute in ("<<<M3079>>>" ++ check (runes_of_ascii "packet A {
+    B b `%`,
+    B `%`,
+    repeat B bs `%`,
+}")).
+Eval vm_compute in ("<<<M1240>>>" ++ check (runes_of_ascii "root
+//	t
+// " ++ [27880; 37322]%N ++ runes_of_ascii "
+packet Foo { char repeatCount
+    ,}
+
+")).
+Eval vm_compute in ("<<<M2333>>>" ++ check (runes_of_ascii "
+MetaData P@tagad{
+u32 rootA `line1
+line2` ,
+    }
+")).
+Eval vm_compute in ("<<<M2798>>>" ++ check (runes_of_ascii "f64 char as options msg_type 3 @rightPad root char")).
+Eval vm_compute in ("<<<M616>>>" ++ check (runes_of_ascii "MetaData Foo {
+msg_type
+roots `two words`
+,	}
+")).
+Eval vm_compute in ("<<<M1048>>>" ++ check (runes_of_ascii "MetaData stringy {u128
+roots	`two words` ,	}
+")).
+Eval vm_compute in ("<<<M2311>>>" ++ check (runes_of_ascii "
+MetaData Pad{
+u32 ( `line1
+line2` ,
+    }
+")).
+Eval vm_compute in ("<<<M3090>>>" ++ check (runes_of_ascii "options {
+    a = ""x\
+y"";
+    b = ""x\
+y""
+}")).
+Eval vm_compute in ("<<<M2825>>>" ++ check (runes_of_ascii "K&G4_FbAFF+D.0PI%kG3CRQKKMVd,dD3Z2s""`J>!")).
+Eval vm_compute in ("<<<M2638>>>" ++ check (runes_of_ascii "packet A { match k as n { '0' : B }, }")).
+Eval vm_compute in ("<<<M6>>>" ++ check (runes_of_ascii "root packet Z9_ { }packet charz
+{}
+")).
+Eval vm_compute in ("<<<M2711>>>" ++ check (runes_of_ascii "packet i16 f32a char[] int64 string")).
+Eval vm_compute in ("<<<M391>>>" ++ check (runes_of_ascii "root packet calculatedFrom{
+    }")).
+Eval vm_compute in ("<<<M3059>>>" ++ check (runes_of_ascii "root packet A {
+    u8 x `x
+`,
+}")).
+Eval vm_compute in ("<<<M3151>>>" ++ check (runes_of_ascii "packet A {
+ u8 x `d" ++ [8239]%N ++ runes_of_ascii "`, // c" ++ [8239]%N ++ runes_of_ascii "
+}")).
+Eval vm_compute in ("<<<M3024>>>" ++ check (runes_of_ascii "packet A {
     u8 x `a
 b`,
 }")).
-Eval vm_compute in ("<<<M1183>>>" ++ check (runes_of_ascii "// c
-options { u8x = 3 }")).
-Eval vm_compute in ("<<<M769>>>" ++ check (runes_of_ascii "N"".iUCO#o(E!r_snCd~>|")).
-Eval vm_compute in ("<<<M990>>>" ++ check (runes_of_ascii "packet A {
-}
-// c" ++ [133]%N)).
-Eval vm_compute in ("<<<M728>>>" ++ check (runes_of_ascii "// only a comment")).
-Eval vm_compute in ("<<<M1640>>>" ++ check (runes_of_ascii "
-packet
-A
-{ }")).
-Eval vm_compute in ("<<<M984>>>" ++ check (runes_of_ascii "// c" ++ [160]%N)).
+Eval vm_compute in ("<<<M1296>>>" ++ check (runes_of_ascii "// 50% %s
+packet u8x { }
+
+")).
+Eval vm_compute in ("<<<M2844>>>" ++ check ([11; 65533]%N ++ runes_of_ascii "D" ++ [65533]%N ++ runes_of_ascii "0" ++ [65533; 5]%N ++ runes_of_ascii "\" ++ [24; 65533]%N ++ runes_of_ascii "Y" ++ [65533; 1607]%N ++ runes_of_ascii "BD" ++ [2]%N ++ runes_of_ascii "<" ++ [12]%N ++ runes_of_ascii "`" ++ [65533]%N ++ runes_of_ascii "Tc" ++ [65533; 6]%N ++ runes_of_ascii ">")).
+Eval vm_compute in ("<<<M2596>>>" ++ check (runes_of_ascii "packet A { x `d` `e`, }")).
+Eval vm_compute in ("<<<M3197>>>" ++ check (runes_of_ascii "// a// bpacket A {}")).
+Eval vm_compute in ("<<<M2584>>>" ++ check (runes_of_ascii "packet A { repeat }")).
+Eval vm_compute in ("<<<M3120>>>" ++ check (runes_of_ascii "// c" ++ [133]%N ++ runes_of_ascii "
+packet A {
+}")).
+Eval vm_compute in ("<<<M4296>>>" ++ check (runes_of_ascii "root packet As {
+}")).
+Eval vm_compute in ("<<<M3172>>>" ++ check (runes_of_ascii "packet A {
+}// c" ++ [8203]%N)).
+Eval vm_compute in ("<<<M2835>>>" ++ check (runes_of_ascii "3 @tag( char i8")).
+Eval vm_compute in ("<<<M3840>>>" ++ check (runes_of_ascii "packet a1 {
+}")).
+Eval vm_compute in ("<<<M2270>>>" ++ check (runes_of_ascii "MetaData _")).
+Eval vm_compute in ("<<<M2657>>>" ++ check (runes_of_ascii "packet A")).
+Eval vm_compute in ("<<<M816>>>" ++ check (runes_of_ascii "//	t
+
+")).
+Eval vm_compute in ("<<<M2486>>>" ++ check (runes_of_ascii "match")).
+Eval vm_compute in ("<<<M2462>>>" ++ check (runes_of_ascii "uint")).
+Eval vm_compute in ("<<<M2458>>>" ++ check (runes_of_ascii "u80")).
+Eval vm_compute in ("<<<M2459>>>" ++ check (runes_of_ascii "u8")).
+Eval vm_compute in ("<<<M2573>>>" ++ check ([233]%N)).
